@@ -196,16 +196,25 @@ pub(crate) struct SparseRecorder {
     pub woff: usize,
     pub wval: u8,
     pub wseen: bool,
+    /// write call (0-based) that fails; NO_FAULT = never.  fail_kind 0: Err(HostAssetImplFailed), 1: Ok(0) (sink full)
+    pub fail_at: u8,
+    pub fail_kind: u8,
+    pub calls: u8,
 }
 
 impl SparseRecorder {
     pub fn new(woff: usize) -> Self {
-        SparseRecorder { len: 0, head: [0; 27], tail: [0; 4], woff, wval: 0, wseen: false }
+        SparseRecorder { len: 0, head: [0; 27], tail: [0; 4], woff, wval: 0, wseen: false, fail_at: NO_FAULT, fail_kind: 0, calls: 0 }
     }
 }
 
 impl DataRecorder for &mut SparseRecorder {
     fn write(&mut self, buf: &[u8]) -> core::result::Result<usize, IoError> {
+        let idx = self.calls;
+        self.calls = self.calls.saturating_add(1);
+        if self.fail_at != NO_FAULT && idx == self.fail_at {
+            return if self.fail_kind == 0 { Err(IoError::HostAssetImplFailed) } else { Ok(0) };
+        }
         let pos = self.len;
         let n = buf.len();
         if pos < 27 {
@@ -592,7 +601,7 @@ fn c14_sna48_body(page: u8, off: usize, sp: Option<u16>) {
 // @assert load returns Ok; every SNA item equals the encoded abstract state (SP advanced by the PC pop), IFF1 = IFF2, PC = the word at SP when SP,SP+1 are RAM, RAM witness = file byte, CPU neither halted nor EI-pending
 // @bound one load; 48K; SP fully symbolic (the PC pop reads RAM at a symbolic address); witness = first byte of page 0 (0x4000); other pages/offsets in sibling harnesses
 // @stub ZXController::refresh_memory_dependent_devices -> no-op; ZXScreen::process_clocks -> no-op (display is C08's subject)
-// @assume receiver CPU not halted / no EI pending / no prefix pending before the load (the complement is KF-C14-1, witnessed by c14_known_sna_ctl_leak)
+// @assume receiver CPU not halted / no EI pending / no prefix pending before the load (that region: c14_sna_into_busy_cpu)
 // @outside RAM offsets not in the concrete witness class (page transfers are whole-slice copies); display refresh
 // @replay solver-only
 #[kani::proof]
@@ -675,7 +684,13 @@ struct Saved48 {
 }
 
 /// save half, 48K: arbitrary running machine -> sparse recorder; asserts "saving is side-effect free"
-fn c13_save48(page: u8, off: usize, mode: SpMode, check_mem: bool, in_proviso: bool) -> Saved48 {
+fn c13_save48(page: u8, off: usize, mode: SpMode, in_proviso: bool) -> Saved48 {
+    c13_save48_rec(page, off, mode, in_proviso, NO_FAULT, 0)
+}
+
+/// as c13_save48, with a recorder that refuses write call `fail_at` (then the save must fail and
+/// the running machine must be unchanged all the same)
+fn c13_save48_rec(page: u8, off: usize, mode: SpMode, in_proviso: bool, fail_at: u8, fail_kind: u8) -> Saved48 {
     let mut a = any_abs();
     let pc: u16 = kani::any();
     let iff1: bool = kani::any();
@@ -692,29 +707,36 @@ fn c13_save48(page: u8, off: usize, mode: SpMode, check_mem: bool, in_proviso: b
             kani::assume(wa != a.sp.wrapping_sub(1) && wa != a.sp.wrapping_sub(2));
         }
     }
-    kani::assume(a.hl_alt == a.hl);
+    let fc: usize = kani::any();
+    kani::assume(fc < 69888);
     let mut s = mk_emulator(ZXMachine::Sinclair48K, CTX);
     set_abs(&mut s, &a);
     cpu(&mut s).regs.set_pc(pc);
     cpu(&mut s).regs.set_iff1(iff1);
+    controller(&mut s).frame_clocks = fc;
     set_ram_byte(&mut s, page, off, wv);
     let mut rec = SparseRecorder::new(spec_off48(page, off));
+    rec.fail_at = fail_at;
+    rec.fail_kind = fail_kind;
     let r = save(&mut s, &mut rec);
-    kani::assert(r.is_ok(), "c13.save48.ok");
-    kani::assert(rec.len == SPEC_SNA48_LEN, "c13.save48.file_length");
+    if fail_at == NO_FAULT {
+        kani::assert(r.is_ok(), "c13.save48.ok");
+        kani::assert(rec.len == SPEC_SNA48_LEN, "c13.save48.file_length");
+    } else {
+        kani::assert(r.is_err(), "c13.save48.recorder_failure_surfaces_as_err");
+    }
     let after = read_abs(&mut s);
     assert_abs_eq!(after, a, "c13.save48.saver_unchanged");
     kani::assert(cpu(&mut s).regs.get_pc() == pc, "c13.save48.saver_unchanged.pc");
     kani::assert(cpu(&mut s).regs.get_iff1() == iff1, "c13.save48.saver_unchanged.iff1");
-    if check_mem {
-        kani::assert(s.peek(wa) == wv, "c13.save48.saver_unchanged.ram");
-    }
+    kani::assert(s.peek(wa) == wv, "c13.save48.saver_unchanged.ram");
+    kani::assert(controller(&mut s).frame_clocks == fc, "c13.save48.saver_unchanged.frame_clock");
+    kani::assert(!cpu(&mut s).halted && !cpu(&mut s).skip_interrupt, "c13.save48.saver_unchanged.control_state");
     Saved48 { a, pc, wv, rec }
 }
 
 fn c13_rt48_body(page: u8, off: usize, mode: SpMode) {
-    let far = matches!(mode, SpMode::At(_));
-    let sv = c13_save48(page, off, mode, far, true);
+    let sv = c13_save48(page, off, mode, true);
     let (a, pc, wv) = (sv.a, sv.pc, sv.wv);
     let wa = addr48(page, off);
     let asset = SparseAsset::new(sv.rec.len, sv.rec.head, sv.rec.tail, sv.rec.woff, sv.rec.wval);
@@ -740,11 +762,13 @@ fn c13_rt128_body(bank: u8, paged: u8, off: usize, hi: u8, latch0: u8) {
     let iff1: bool = kani::any();
     let wv: u8 = kani::any();
     let latch = (hi & 0xF8) | paged;
-    kani::assume(a.hl_alt == a.hl);
+    let fc: usize = kani::any();
+    kani::assume(fc < 70908);
     let mut s = mk_emulator(ZXMachine::Sinclair128K, CTX);
     set_abs(&mut s, &a);
     cpu(&mut s).regs.set_pc(pc);
     cpu(&mut s).regs.set_iff1(iff1);
+    controller(&mut s).frame_clocks = fc;
     controller(&mut s).write_7ffd(latch);
     set_ram_byte(&mut s, bank, off, wv);
     let mut rec = SparseRecorder::new(spec_off128(bank, paged, off));
@@ -758,6 +782,7 @@ fn c13_rt128_body(bank: u8, paged: u8, off: usize, hi: u8, latch0: u8) {
     kani::assert(ram_byte(&mut s, bank, off) == wv, "c13.save128.saver_unchanged.ram");
     kani::assert(controller(&mut s).read_7ffd() == latch, "c13.save128.saver_unchanged.latch");
     kani::assert(ch::paging_enabled(controller(&mut s)) == (latch & 0x20 == 0), "c13.save128.saver_unchanged.lock");
+    kani::assert(controller(&mut s).frame_clocks == fc, "c13.save128.saver_unchanged.frame_clock");
 
     let asset = SparseAsset::new(rec.len, rec.head, rec.tail, rec.woff, rec.wval);
     let mut b = receiver(ZXMachine::Sinclair128K, false, latch0);
@@ -785,10 +810,10 @@ fn c13_rt128_body(bank: u8, paged: u8, off: usize, hi: u8, latch0: u8) {
 // @tier quick
 // @timeout 600
 // @fn sna::save; sna::load; ScopedSnapshotState::enter/drop; Z80::push_pc_to_stack; Z80::pop_pc_from_stack; Regs alt getters; ZXController::write_7ffd; ZXController::read_7ffd; ZXMemory::ram_page_data(_mut); DataRecorder::write_all; LoadableAsset::read_exact
-// @sym saver: every register incl. alternates, I, R, IX, IY, IFF1, IFF2, IM, border, PC, witness RAM value; receiver: all registers, border, PC, IFF1, its own byte at the witness address
-// @assert save Ok, file length 49179; saver registers/PC/IFF1 (and, when the witness is not under SP, its RAM byte) unchanged; after load every SNA item equals the saver's, RAM witness equal / PC byte carried by the witness equal; receiver running
+// @sym saver: every register incl. alternates, I, R, IX, IY, IFF1, IFF2, IM, border, PC, frame clock, witness RAM value; receiver: all registers, border, PC, IFF1, its own byte at the witness address
+// @assert save Ok, file length 49179; saver registers/PC/IFF1/RAM witness (also when it is one of the two bytes below SP)/frame clock unchanged; after load every SNA item equals the saver's, RAM witness equal / PC byte carried by the witness equal; receiver running
 // @bound 1 save + 1 load, 48K; witness page 0 offset 0; SP At(0x8000) (concrete class), everything else symbolic
-// @assume HL' == HL in the saver (complement is KF-C13-1); receiver CPU not halted / EI-pending / mid-prefix and (128K) paging not locked before the load (complements KF-C13-4, KF-C13-5); the two bytes below SP are RAM (statement's 48K proviso)
+// @assume receiver CPU not halted / EI-pending / mid-prefix before the load (that region: c13_rt128_into_busy_cpu); the two bytes below SP are RAM (statement's 48K proviso)
 // @outside RAM offsets outside the witness class {0,1,0x1AFF,0x1B00,0x3FFE,0x3FFF} (whole-page slice copies); symbolic SP (a symbolic-address store into the 48K Vec followed by the recorder reads did not finish in 900 s); display refresh
 // @stub ZXController::refresh_memory_dependent_devices -> no-op; ZXScreen::process_clocks -> no-op (display is C08's subject)
 // @replay solver-only
@@ -805,10 +830,10 @@ fn c13_rt48_p0_first_sp8000() {
 // @tier quick
 // @timeout 600
 // @fn sna::save; sna::load; ScopedSnapshotState::enter/drop; Z80::push_pc_to_stack; Z80::pop_pc_from_stack; Regs alt getters; ZXController::write_7ffd; ZXController::read_7ffd; ZXMemory::ram_page_data(_mut); DataRecorder::write_all; LoadableAsset::read_exact
-// @sym saver: every register incl. alternates, I, R, IX, IY, IFF1, IFF2, IM, border, PC, witness RAM value; receiver: all registers, border, PC, IFF1, its own byte at the witness address
-// @assert save Ok, file length 49179; saver registers/PC/IFF1 (and, when the witness is not under SP, its RAM byte) unchanged; after load every SNA item equals the saver's, RAM witness equal / PC byte carried by the witness equal; receiver running
+// @sym saver: every register incl. alternates, I, R, IX, IY, IFF1, IFF2, IM, border, PC, frame clock, witness RAM value; receiver: all registers, border, PC, IFF1, its own byte at the witness address
+// @assert save Ok, file length 49179; saver registers/PC/IFF1/RAM witness (also when it is one of the two bytes below SP)/frame clock unchanged; after load every SNA item equals the saver's, RAM witness equal / PC byte carried by the witness equal; receiver running
 // @bound 1 save + 1 load, 48K; witness page 1 offset 0x3FFF; SP At(0xFFFF) (concrete class), everything else symbolic
-// @assume HL' == HL in the saver (complement is KF-C13-1); receiver CPU not halted / EI-pending / mid-prefix and (128K) paging not locked before the load (complements KF-C13-4, KF-C13-5); the two bytes below SP are RAM (statement's 48K proviso)
+// @assume receiver CPU not halted / EI-pending / mid-prefix before the load (that region: c13_rt128_into_busy_cpu); the two bytes below SP are RAM (statement's 48K proviso)
 // @outside RAM offsets outside the witness class {0,1,0x1AFF,0x1B00,0x3FFE,0x3FFF} (whole-page slice copies); symbolic SP (a symbolic-address store into the 48K Vec followed by the recorder reads did not finish in 900 s); display refresh
 // @stub ZXController::refresh_memory_dependent_devices -> no-op; ZXScreen::process_clocks -> no-op (display is C08's subject)
 // @replay solver-only
@@ -825,10 +850,10 @@ fn c13_rt48_p1_last_spffff() {
 // @tier quick
 // @timeout 600
 // @fn sna::save; sna::load; ScopedSnapshotState::enter/drop; Z80::push_pc_to_stack; Z80::pop_pc_from_stack; Regs alt getters; ZXController::write_7ffd; ZXController::read_7ffd; ZXMemory::ram_page_data(_mut); DataRecorder::write_all; LoadableAsset::read_exact
-// @sym saver: every register incl. alternates, I, R, IX, IY, IFF1, IFF2, IM, border, PC, witness RAM value; receiver: all registers, border, PC, IFF1, its own byte at the witness address
-// @assert save Ok, file length 49179; saver registers/PC/IFF1 (and, when the witness is not under SP, its RAM byte) unchanged; after load every SNA item equals the saver's, RAM witness equal / PC byte carried by the witness equal; receiver running
+// @sym saver: every register incl. alternates, I, R, IX, IY, IFF1, IFF2, IM, border, PC, frame clock, witness RAM value; receiver: all registers, border, PC, IFF1, its own byte at the witness address
+// @assert save Ok, file length 49179; saver registers/PC/IFF1/RAM witness (also when it is one of the two bytes below SP)/frame clock unchanged; after load every SNA item equals the saver's, RAM witness equal / PC byte carried by the witness equal; receiver running
 // @bound 1 save + 1 load, 48K; witness page 2 offset 0x1B00; SP At(0x0000) (concrete class), everything else symbolic
-// @assume HL' == HL in the saver (complement is KF-C13-1); receiver CPU not halted / EI-pending / mid-prefix and (128K) paging not locked before the load (complements KF-C13-4, KF-C13-5); the two bytes below SP are RAM (statement's 48K proviso)
+// @assume receiver CPU not halted / EI-pending / mid-prefix before the load (that region: c13_rt128_into_busy_cpu); the two bytes below SP are RAM (statement's 48K proviso)
 // @outside RAM offsets outside the witness class {0,1,0x1AFF,0x1B00,0x3FFE,0x3FFF} (whole-page slice copies); symbolic SP (a symbolic-address store into the 48K Vec followed by the recorder reads did not finish in 900 s); display refresh
 // @stub ZXController::refresh_memory_dependent_devices -> no-op; ZXScreen::process_clocks -> no-op (display is C08's subject)
 // @replay solver-only
@@ -845,10 +870,10 @@ fn c13_rt48_p2_attr_sp0000() {
 // @tier quick
 // @timeout 600
 // @fn sna::save; sna::load; ScopedSnapshotState::enter/drop; Z80::push_pc_to_stack; Z80::pop_pc_from_stack; Regs alt getters; ZXController::write_7ffd; ZXController::read_7ffd; ZXMemory::ram_page_data(_mut); DataRecorder::write_all; LoadableAsset::read_exact
-// @sym saver: every register incl. alternates, I, R, IX, IY, IFF1, IFF2, IM, border, PC, witness RAM value; receiver: all registers, border, PC, IFF1, its own byte at the witness address
-// @assert save Ok, file length 49179; saver registers/PC/IFF1 (and, when the witness is not under SP, its RAM byte) unchanged; after load every SNA item equals the saver's, RAM witness equal / PC byte carried by the witness equal; receiver running
+// @sym saver: every register incl. alternates, I, R, IX, IY, IFF1, IFF2, IM, border, PC, frame clock, witness RAM value; receiver: all registers, border, PC, IFF1, its own byte at the witness address
+// @assert save Ok, file length 49179; saver registers/PC/IFF1/RAM witness (also when it is one of the two bytes below SP)/frame clock unchanged; after load every SNA item equals the saver's, RAM witness equal / PC byte carried by the witness equal; receiver running
 // @bound 1 save + 1 load, 48K; witness page 0 offset 0x1AFF; SP PcLo (concrete class), everything else symbolic
-// @assume HL' == HL in the saver (complement is KF-C13-1); receiver CPU not halted / EI-pending / mid-prefix and (128K) paging not locked before the load (complements KF-C13-4, KF-C13-5); the two bytes below SP are RAM (statement's 48K proviso)
+// @assume receiver CPU not halted / EI-pending / mid-prefix before the load (that region: c13_rt128_into_busy_cpu); the two bytes below SP are RAM (statement's 48K proviso)
 // @outside RAM offsets outside the witness class {0,1,0x1AFF,0x1B00,0x3FFE,0x3FFF} (whole-page slice copies); symbolic SP (a symbolic-address store into the 48K Vec followed by the recorder reads did not finish in 900 s); display refresh
 // @stub ZXController::refresh_memory_dependent_devices -> no-op; ZXScreen::process_clocks -> no-op (display is C08's subject)
 // @replay solver-only
@@ -865,10 +890,10 @@ fn c13_rt48_pc_low_p0() {
 // @tier quick
 // @timeout 600
 // @fn sna::save; sna::load; ScopedSnapshotState::enter/drop; Z80::push_pc_to_stack; Z80::pop_pc_from_stack; Regs alt getters; ZXController::write_7ffd; ZXController::read_7ffd; ZXMemory::ram_page_data(_mut); DataRecorder::write_all; LoadableAsset::read_exact
-// @sym saver: every register incl. alternates, I, R, IX, IY, IFF1, IFF2, IM, border, PC, witness RAM value; receiver: all registers, border, PC, IFF1, its own byte at the witness address
-// @assert save Ok, file length 49179; saver registers/PC/IFF1 (and, when the witness is not under SP, its RAM byte) unchanged; after load every SNA item equals the saver's, RAM witness equal / PC byte carried by the witness equal; receiver running
+// @sym saver: every register incl. alternates, I, R, IX, IY, IFF1, IFF2, IM, border, PC, frame clock, witness RAM value; receiver: all registers, border, PC, IFF1, its own byte at the witness address
+// @assert save Ok, file length 49179; saver registers/PC/IFF1/RAM witness (also when it is one of the two bytes below SP)/frame clock unchanged; after load every SNA item equals the saver's, RAM witness equal / PC byte carried by the witness equal; receiver running
 // @bound 1 save + 1 load, 48K; witness page 0 offset 0x3FFF; SP PcLo (concrete class), everything else symbolic
-// @assume HL' == HL in the saver (complement is KF-C13-1); receiver CPU not halted / EI-pending / mid-prefix and (128K) paging not locked before the load (complements KF-C13-4, KF-C13-5); the two bytes below SP are RAM (statement's 48K proviso)
+// @assume receiver CPU not halted / EI-pending / mid-prefix before the load (that region: c13_rt128_into_busy_cpu); the two bytes below SP are RAM (statement's 48K proviso)
 // @outside RAM offsets outside the witness class {0,1,0x1AFF,0x1B00,0x3FFE,0x3FFF} (whole-page slice copies); symbolic SP (a symbolic-address store into the 48K Vec followed by the recorder reads did not finish in 900 s); display refresh
 // @stub ZXController::refresh_memory_dependent_devices -> no-op; ZXScreen::process_clocks -> no-op (display is C08's subject)
 // @replay solver-only
@@ -885,10 +910,10 @@ fn c13_rt48_pc_low_page_cross() {
 // @tier quick
 // @timeout 600
 // @fn sna::save; sna::load; ScopedSnapshotState::enter/drop; Z80::push_pc_to_stack; Z80::pop_pc_from_stack; Regs alt getters; ZXController::write_7ffd; ZXController::read_7ffd; ZXMemory::ram_page_data(_mut); DataRecorder::write_all; LoadableAsset::read_exact
-// @sym saver: every register incl. alternates, I, R, IX, IY, IFF1, IFF2, IM, border, PC, witness RAM value; receiver: all registers, border, PC, IFF1, its own byte at the witness address
-// @assert save Ok, file length 49179; saver registers/PC/IFF1 (and, when the witness is not under SP, its RAM byte) unchanged; after load every SNA item equals the saver's, RAM witness equal / PC byte carried by the witness equal; receiver running
+// @sym saver: every register incl. alternates, I, R, IX, IY, IFF1, IFF2, IM, border, PC, frame clock, witness RAM value; receiver: all registers, border, PC, IFF1, its own byte at the witness address
+// @assert save Ok, file length 49179; saver registers/PC/IFF1/RAM witness (also when it is one of the two bytes below SP)/frame clock unchanged; after load every SNA item equals the saver's, RAM witness equal / PC byte carried by the witness equal; receiver running
 // @bound 1 save + 1 load, 48K; witness page 2 offset 0x3FFF; SP PcHi (concrete class), everything else symbolic
-// @assume HL' == HL in the saver (complement is KF-C13-1); receiver CPU not halted / EI-pending / mid-prefix and (128K) paging not locked before the load (complements KF-C13-4, KF-C13-5); the two bytes below SP are RAM (statement's 48K proviso)
+// @assume receiver CPU not halted / EI-pending / mid-prefix before the load (that region: c13_rt128_into_busy_cpu); the two bytes below SP are RAM (statement's 48K proviso)
 // @outside RAM offsets outside the witness class {0,1,0x1AFF,0x1B00,0x3FFE,0x3FFF} (whole-page slice copies); symbolic SP (a symbolic-address store into the 48K Vec followed by the recorder reads did not finish in 900 s); display refresh
 // @stub ZXController::refresh_memory_dependent_devices -> no-op; ZXScreen::process_clocks -> no-op (display is C08's subject)
 // @replay solver-only
@@ -905,10 +930,10 @@ fn c13_rt48_pc_high_wraps_ffff() {
 // @tier thorough
 // @timeout 600
 // @fn sna::save; sna::load; ScopedSnapshotState::enter/drop; Z80::push_pc_to_stack; Z80::pop_pc_from_stack; Regs alt getters; ZXController::write_7ffd; ZXController::read_7ffd; ZXMemory::ram_page_data(_mut); DataRecorder::write_all; LoadableAsset::read_exact
-// @sym saver: every register incl. alternates, I, R, IX, IY, IFF1, IFF2, IM, border, PC, witness RAM value; receiver: all registers, border, PC, IFF1, its own byte at the witness address
-// @assert save Ok, file length 49179; saver registers/PC/IFF1 (and, when the witness is not under SP, its RAM byte) unchanged; after load every SNA item equals the saver's, RAM witness equal / PC byte carried by the witness equal; receiver running
+// @sym saver: every register incl. alternates, I, R, IX, IY, IFF1, IFF2, IM, border, PC, frame clock, witness RAM value; receiver: all registers, border, PC, IFF1, its own byte at the witness address
+// @assert save Ok, file length 49179; saver registers/PC/IFF1/RAM witness (also when it is one of the two bytes below SP)/frame clock unchanged; after load every SNA item equals the saver's, RAM witness equal / PC byte carried by the witness equal; receiver running
 // @bound 1 save + 1 load, 48K; witness page 0 offset 1; SP At(0x4004) (concrete class), everything else symbolic
-// @assume HL' == HL in the saver (complement is KF-C13-1); receiver CPU not halted / EI-pending / mid-prefix and (128K) paging not locked before the load (complements KF-C13-4, KF-C13-5); the two bytes below SP are RAM (statement's 48K proviso)
+// @assume receiver CPU not halted / EI-pending / mid-prefix before the load (that region: c13_rt128_into_busy_cpu); the two bytes below SP are RAM (statement's 48K proviso)
 // @outside RAM offsets outside the witness class {0,1,0x1AFF,0x1B00,0x3FFE,0x3FFF} (whole-page slice copies); symbolic SP (a symbolic-address store into the 48K Vec followed by the recorder reads did not finish in 900 s); display refresh
 // @stub ZXController::refresh_memory_dependent_devices -> no-op; ZXScreen::process_clocks -> no-op (display is C08's subject)
 // @replay solver-only
@@ -925,10 +950,10 @@ fn c13_rt48_p0_second_sp4004() {
 // @tier thorough
 // @timeout 600
 // @fn sna::save; sna::load; ScopedSnapshotState::enter/drop; Z80::push_pc_to_stack; Z80::pop_pc_from_stack; Regs alt getters; ZXController::write_7ffd; ZXController::read_7ffd; ZXMemory::ram_page_data(_mut); DataRecorder::write_all; LoadableAsset::read_exact
-// @sym saver: every register incl. alternates, I, R, IX, IY, IFF1, IFF2, IM, border, PC, witness RAM value; receiver: all registers, border, PC, IFF1, its own byte at the witness address
-// @assert save Ok, file length 49179; saver registers/PC/IFF1 (and, when the witness is not under SP, its RAM byte) unchanged; after load every SNA item equals the saver's, RAM witness equal / PC byte carried by the witness equal; receiver running
+// @sym saver: every register incl. alternates, I, R, IX, IY, IFF1, IFF2, IM, border, PC, frame clock, witness RAM value; receiver: all registers, border, PC, IFF1, its own byte at the witness address
+// @assert save Ok, file length 49179; saver registers/PC/IFF1/RAM witness (also when it is one of the two bytes below SP)/frame clock unchanged; after load every SNA item equals the saver's, RAM witness equal / PC byte carried by the witness equal; receiver running
 // @bound 1 save + 1 load, 48K; witness page 1 offset 0; SP At(0xC000) (concrete class), everything else symbolic
-// @assume HL' == HL in the saver (complement is KF-C13-1); receiver CPU not halted / EI-pending / mid-prefix and (128K) paging not locked before the load (complements KF-C13-4, KF-C13-5); the two bytes below SP are RAM (statement's 48K proviso)
+// @assume receiver CPU not halted / EI-pending / mid-prefix before the load (that region: c13_rt128_into_busy_cpu); the two bytes below SP are RAM (statement's 48K proviso)
 // @outside RAM offsets outside the witness class {0,1,0x1AFF,0x1B00,0x3FFE,0x3FFF} (whole-page slice copies); symbolic SP (a symbolic-address store into the 48K Vec followed by the recorder reads did not finish in 900 s); display refresh
 // @stub ZXController::refresh_memory_dependent_devices -> no-op; ZXScreen::process_clocks -> no-op (display is C08's subject)
 // @replay solver-only
@@ -945,10 +970,10 @@ fn c13_rt48_p1_first_spc000() {
 // @tier thorough
 // @timeout 600
 // @fn sna::save; sna::load; ScopedSnapshotState::enter/drop; Z80::push_pc_to_stack; Z80::pop_pc_from_stack; Regs alt getters; ZXController::write_7ffd; ZXController::read_7ffd; ZXMemory::ram_page_data(_mut); DataRecorder::write_all; LoadableAsset::read_exact
-// @sym saver: every register incl. alternates, I, R, IX, IY, IFF1, IFF2, IM, border, PC, witness RAM value; receiver: all registers, border, PC, IFF1, its own byte at the witness address
-// @assert save Ok, file length 49179; saver registers/PC/IFF1 (and, when the witness is not under SP, its RAM byte) unchanged; after load every SNA item equals the saver's, RAM witness equal / PC byte carried by the witness equal; receiver running
+// @sym saver: every register incl. alternates, I, R, IX, IY, IFF1, IFF2, IM, border, PC, frame clock, witness RAM value; receiver: all registers, border, PC, IFF1, its own byte at the witness address
+// @assert save Ok, file length 49179; saver registers/PC/IFF1/RAM witness (also when it is one of the two bytes below SP)/frame clock unchanged; after load every SNA item equals the saver's, RAM witness equal / PC byte carried by the witness equal; receiver running
 // @bound 1 save + 1 load, 48K; witness page 2 offset 0x3FFF; SP At(0x8001) (concrete class), everything else symbolic
-// @assume HL' == HL in the saver (complement is KF-C13-1); receiver CPU not halted / EI-pending / mid-prefix and (128K) paging not locked before the load (complements KF-C13-4, KF-C13-5); the two bytes below SP are RAM (statement's 48K proviso)
+// @assume receiver CPU not halted / EI-pending / mid-prefix before the load (that region: c13_rt128_into_busy_cpu); the two bytes below SP are RAM (statement's 48K proviso)
 // @outside RAM offsets outside the witness class {0,1,0x1AFF,0x1B00,0x3FFE,0x3FFF} (whole-page slice copies); symbolic SP (a symbolic-address store into the 48K Vec followed by the recorder reads did not finish in 900 s); display refresh
 // @stub ZXController::refresh_memory_dependent_devices -> no-op; ZXScreen::process_clocks -> no-op (display is C08's subject)
 // @replay solver-only
@@ -965,10 +990,10 @@ fn c13_rt48_p2_last_sp8001() {
 // @tier thorough
 // @timeout 600
 // @fn sna::save; sna::load; ScopedSnapshotState::enter/drop; Z80::push_pc_to_stack; Z80::pop_pc_from_stack; Regs alt getters; ZXController::write_7ffd; ZXController::read_7ffd; ZXMemory::ram_page_data(_mut); DataRecorder::write_all; LoadableAsset::read_exact
-// @sym saver: every register incl. alternates, I, R, IX, IY, IFF1, IFF2, IM, border, PC, witness RAM value; receiver: all registers, border, PC, IFF1, its own byte at the witness address
-// @assert save Ok, file length 49179; saver registers/PC/IFF1 (and, when the witness is not under SP, its RAM byte) unchanged; after load every SNA item equals the saver's, RAM witness equal / PC byte carried by the witness equal; receiver running
+// @sym saver: every register incl. alternates, I, R, IX, IY, IFF1, IFF2, IM, border, PC, frame clock, witness RAM value; receiver: all registers, border, PC, IFF1, its own byte at the witness address
+// @assert save Ok, file length 49179; saver registers/PC/IFF1/RAM witness (also when it is one of the two bytes below SP)/frame clock unchanged; after load every SNA item equals the saver's, RAM witness equal / PC byte carried by the witness equal; receiver running
 // @bound 1 save + 1 load, 48K; witness page 2 offset 0; SP At(0x4002) (concrete class), everything else symbolic
-// @assume HL' == HL in the saver (complement is KF-C13-1); receiver CPU not halted / EI-pending / mid-prefix and (128K) paging not locked before the load (complements KF-C13-4, KF-C13-5); the two bytes below SP are RAM (statement's 48K proviso)
+// @assume receiver CPU not halted / EI-pending / mid-prefix before the load (that region: c13_rt128_into_busy_cpu); the two bytes below SP are RAM (statement's 48K proviso)
 // @outside RAM offsets outside the witness class {0,1,0x1AFF,0x1B00,0x3FFE,0x3FFF} (whole-page slice copies); symbolic SP (a symbolic-address store into the 48K Vec followed by the recorder reads did not finish in 900 s); display refresh
 // @stub ZXController::refresh_memory_dependent_devices -> no-op; ZXScreen::process_clocks -> no-op (display is C08's subject)
 // @replay solver-only
@@ -985,10 +1010,10 @@ fn c13_rt48_p2_first_sp4002() {
 // @tier thorough
 // @timeout 600
 // @fn sna::save; sna::load; ScopedSnapshotState::enter/drop; Z80::push_pc_to_stack; Z80::pop_pc_from_stack; Regs alt getters; ZXController::write_7ffd; ZXController::read_7ffd; ZXMemory::ram_page_data(_mut); DataRecorder::write_all; LoadableAsset::read_exact
-// @sym saver: every register incl. alternates, I, R, IX, IY, IFF1, IFF2, IM, border, PC, witness RAM value; receiver: all registers, border, PC, IFF1, its own byte at the witness address
-// @assert save Ok, file length 49179; saver registers/PC/IFF1 (and, when the witness is not under SP, its RAM byte) unchanged; after load every SNA item equals the saver's, RAM witness equal / PC byte carried by the witness equal; receiver running
+// @sym saver: every register incl. alternates, I, R, IX, IY, IFF1, IFF2, IM, border, PC, frame clock, witness RAM value; receiver: all registers, border, PC, IFF1, its own byte at the witness address
+// @assert save Ok, file length 49179; saver registers/PC/IFF1/RAM witness (also when it is one of the two bytes below SP)/frame clock unchanged; after load every SNA item equals the saver's, RAM witness equal / PC byte carried by the witness equal; receiver running
 // @bound 1 save + 1 load, 48K; witness page 1 offset 0x3FFE; SP At(0x0000) (concrete class), everything else symbolic
-// @assume HL' == HL in the saver (complement is KF-C13-1); receiver CPU not halted / EI-pending / mid-prefix and (128K) paging not locked before the load (complements KF-C13-4, KF-C13-5); the two bytes below SP are RAM (statement's 48K proviso)
+// @assume receiver CPU not halted / EI-pending / mid-prefix before the load (that region: c13_rt128_into_busy_cpu); the two bytes below SP are RAM (statement's 48K proviso)
 // @outside RAM offsets outside the witness class {0,1,0x1AFF,0x1B00,0x3FFE,0x3FFF} (whole-page slice copies); symbolic SP (a symbolic-address store into the 48K Vec followed by the recorder reads did not finish in 900 s); display refresh
 // @stub ZXController::refresh_memory_dependent_devices -> no-op; ZXScreen::process_clocks -> no-op (display is C08's subject)
 // @replay solver-only
@@ -1005,10 +1030,10 @@ fn c13_rt48_p1_3ffe_sp0000() {
 // @tier thorough
 // @timeout 600
 // @fn sna::save; sna::load; ScopedSnapshotState::enter/drop; Z80::push_pc_to_stack; Z80::pop_pc_from_stack; Regs alt getters; ZXController::write_7ffd; ZXController::read_7ffd; ZXMemory::ram_page_data(_mut); DataRecorder::write_all; LoadableAsset::read_exact
-// @sym saver: every register incl. alternates, I, R, IX, IY, IFF1, IFF2, IM, border, PC, witness RAM value; receiver: all registers, border, PC, IFF1, its own byte at the witness address
-// @assert save Ok, file length 49179; saver registers/PC/IFF1 (and, when the witness is not under SP, its RAM byte) unchanged; after load every SNA item equals the saver's, RAM witness equal / PC byte carried by the witness equal; receiver running
+// @sym saver: every register incl. alternates, I, R, IX, IY, IFF1, IFF2, IM, border, PC, frame clock, witness RAM value; receiver: all registers, border, PC, IFF1, its own byte at the witness address
+// @assert save Ok, file length 49179; saver registers/PC/IFF1/RAM witness (also when it is one of the two bytes below SP)/frame clock unchanged; after load every SNA item equals the saver's, RAM witness equal / PC byte carried by the witness equal; receiver running
 // @bound 1 save + 1 load, 48K; witness page 1 offset 0x1B00; SP PcHi (concrete class), everything else symbolic
-// @assume HL' == HL in the saver (complement is KF-C13-1); receiver CPU not halted / EI-pending / mid-prefix and (128K) paging not locked before the load (complements KF-C13-4, KF-C13-5); the two bytes below SP are RAM (statement's 48K proviso)
+// @assume receiver CPU not halted / EI-pending / mid-prefix before the load (that region: c13_rt128_into_busy_cpu); the two bytes below SP are RAM (statement's 48K proviso)
 // @outside RAM offsets outside the witness class {0,1,0x1AFF,0x1B00,0x3FFE,0x3FFF} (whole-page slice copies); symbolic SP (a symbolic-address store into the 48K Vec followed by the recorder reads did not finish in 900 s); display refresh
 // @stub ZXController::refresh_memory_dependent_devices -> no-op; ZXScreen::process_clocks -> no-op (display is C08's subject)
 // @replay solver-only
@@ -1025,10 +1050,10 @@ fn c13_rt48_pc_high_p1() {
 // @tier thorough
 // @timeout 600
 // @fn sna::save; sna::load; ScopedSnapshotState::enter/drop; Z80::push_pc_to_stack; Z80::pop_pc_from_stack; Regs alt getters; ZXController::write_7ffd; ZXController::read_7ffd; ZXMemory::ram_page_data(_mut); DataRecorder::write_all; LoadableAsset::read_exact
-// @sym saver: every register incl. alternates, I, R, IX, IY, IFF1, IFF2, IM, border, PC, witness RAM value; receiver: all registers, border, PC, IFF1, its own byte at the witness address
-// @assert save Ok, file length 49179; saver registers/PC/IFF1 (and, when the witness is not under SP, its RAM byte) unchanged; after load every SNA item equals the saver's, RAM witness equal / PC byte carried by the witness equal; receiver running
+// @sym saver: every register incl. alternates, I, R, IX, IY, IFF1, IFF2, IM, border, PC, frame clock, witness RAM value; receiver: all registers, border, PC, IFF1, its own byte at the witness address
+// @assert save Ok, file length 49179; saver registers/PC/IFF1/RAM witness (also when it is one of the two bytes below SP)/frame clock unchanged; after load every SNA item equals the saver's, RAM witness equal / PC byte carried by the witness equal; receiver running
 // @bound 1 save + 1 load, 48K; witness page 0 offset 0; SP PcLo (concrete class), everything else symbolic
-// @assume HL' == HL in the saver (complement is KF-C13-1); receiver CPU not halted / EI-pending / mid-prefix and (128K) paging not locked before the load (complements KF-C13-4, KF-C13-5); the two bytes below SP are RAM (statement's 48K proviso)
+// @assume receiver CPU not halted / EI-pending / mid-prefix before the load (that region: c13_rt128_into_busy_cpu); the two bytes below SP are RAM (statement's 48K proviso)
 // @outside RAM offsets outside the witness class {0,1,0x1AFF,0x1B00,0x3FFE,0x3FFF} (whole-page slice copies); symbolic SP (a symbolic-address store into the 48K Vec followed by the recorder reads did not finish in 900 s); display refresh
 // @stub ZXController::refresh_memory_dependent_devices -> no-op; ZXScreen::process_clocks -> no-op (display is C08's subject)
 // @replay solver-only
@@ -1045,10 +1070,10 @@ fn c13_rt48_pc_low_first_ram() {
 // @tier quick
 // @timeout 600
 // @fn sna::save; sna::load; ScopedSnapshotState::enter/drop; Z80::push_pc_to_stack; Z80::pop_pc_from_stack; Regs alt getters; ZXController::write_7ffd; ZXController::read_7ffd; ZXMemory::ram_page_data(_mut); DataRecorder::write_all; LoadableAsset::read_exact
-// @sym saver: every register incl. alternates, I, R, IX, IY, IFF1, IFF2, IM, border, PC, witness RAM value; receiver: all registers, border, PC, IFF1, its own byte in the witness bank; 7FFD values concrete per query
-// @assert save Ok, file length 131103 (147487 when bank 2/5 is paged); saver registers/PC/IFF1/RAM witness/latch/lock unchanged; after load every SNA item, PC, 7FFD latch, lock, map at C000, ROM, screen bank equal the saver's; RAM witness equal in its bank and through the CPU map when paged
+// @sym saver: every register incl. alternates, I, R, IX, IY, IFF1, IFF2, IM, border, PC, frame clock, witness RAM value; receiver: all registers, border, PC, IFF1, its own byte in the witness bank; 7FFD values concrete per query
+// @assert save Ok, file length 131103 (147487 when bank 2/5 is paged); saver registers/PC/IFF1/RAM witness/latch/lock/frame clock unchanged; after load every SNA item, PC, 7FFD latch, lock, map at C000, ROM, screen bank equal the saver's; RAM witness equal in its bank and through the CPU map when paged
 // @bound 1 save + 1 load, 128K; witness bank 0 offset 0; saver 7FFD = 0x00|0, receiver 7FFD before load = 0x07 (concrete: a symbolic port byte makes the page pointer symbolic -> CBMC out of memory at 10 GB)
-// @assume HL' == HL in the saver (complement is KF-C13-1); receiver CPU not halted / EI-pending / mid-prefix and (128K) paging not locked before the load (complements KF-C13-4, KF-C13-5)
+// @assume receiver CPU not halted / EI-pending / mid-prefix before the load (that region: c13_rt128_into_busy_cpu)
 // @outside RAM offsets outside the witness class {0,1,0x1AFF,0x1B00,0x3FFE,0x3FFF} (whole-page slice copies); symbolic SP (a symbolic-address store into the 48K Vec followed by the recorder reads did not finish in 900 s); display refresh; 7FFD values not enumerated
 // @stub ZXController::refresh_memory_dependent_devices -> no-op; ZXScreen::process_clocks -> no-op (display is C08's subject)
 // @replay solver-only
@@ -1066,10 +1091,10 @@ fn c13_rt128_bank0_paged0() {
 // @tier quick
 // @timeout 600
 // @fn sna::save; sna::load; ScopedSnapshotState::enter/drop; Z80::push_pc_to_stack; Z80::pop_pc_from_stack; Regs alt getters; ZXController::write_7ffd; ZXController::read_7ffd; ZXMemory::ram_page_data(_mut); DataRecorder::write_all; LoadableAsset::read_exact
-// @sym saver: every register incl. alternates, I, R, IX, IY, IFF1, IFF2, IM, border, PC, witness RAM value; receiver: all registers, border, PC, IFF1, its own byte in the witness bank; 7FFD values concrete per query
-// @assert save Ok, file length 131103 (147487 when bank 2/5 is paged); saver registers/PC/IFF1/RAM witness/latch/lock unchanged; after load every SNA item, PC, 7FFD latch, lock, map at C000, ROM, screen bank equal the saver's; RAM witness equal in its bank and through the CPU map when paged
-// @bound 1 save + 1 load, 128K; witness bank 1 offset 0x3FFF; saver 7FFD = 0x08|7, receiver 7FFD before load = 0x10 (concrete: a symbolic port byte makes the page pointer symbolic -> CBMC out of memory at 10 GB)
-// @assume HL' == HL in the saver (complement is KF-C13-1); receiver CPU not halted / EI-pending / mid-prefix and (128K) paging not locked before the load (complements KF-C13-4, KF-C13-5)
+// @sym saver: every register incl. alternates, I, R, IX, IY, IFF1, IFF2, IM, border, PC, frame clock, witness RAM value; receiver: all registers, border, PC, IFF1, its own byte in the witness bank; 7FFD values concrete per query
+// @assert save Ok, file length 131103 (147487 when bank 2/5 is paged); saver registers/PC/IFF1/RAM witness/latch/lock/frame clock unchanged; after load every SNA item, PC, 7FFD latch, lock, map at C000, ROM, screen bank equal the saver's; RAM witness equal in its bank and through the CPU map when paged
+// @bound 1 save + 1 load, 128K; witness bank 1 offset 0x3FFF; saver 7FFD = 0x08|7, receiver 7FFD before load = 0x30 = paging LOCKED (concrete: a symbolic port byte makes the page pointer symbolic -> CBMC out of memory at 10 GB)
+// @assume receiver CPU not halted / EI-pending / mid-prefix before the load (that region: c13_rt128_into_busy_cpu)
 // @outside RAM offsets outside the witness class {0,1,0x1AFF,0x1B00,0x3FFE,0x3FFF} (whole-page slice copies); symbolic SP (a symbolic-address store into the 48K Vec followed by the recorder reads did not finish in 900 s); display refresh; 7FFD values not enumerated
 // @stub ZXController::refresh_memory_dependent_devices -> no-op; ZXScreen::process_clocks -> no-op (display is C08's subject)
 // @replay solver-only
@@ -1078,7 +1103,7 @@ fn c13_rt128_bank0_paged0() {
 #[kani::stub(ZXController::refresh_memory_dependent_devices, noop_refresh)]
 #[kani::stub(ZXScreen::process_clocks, noop_screen_clocks)]
 fn c13_rt128_bank1_paged7() {
-    c13_rt128_body(1, 7, 0x3FFF, 0x08, 0x10);
+    c13_rt128_body(1, 7, 0x3FFF, 0x08, 0x30);
     kani::cover!(true, "round trip completed");
 }
 
@@ -1087,10 +1112,10 @@ fn c13_rt128_bank1_paged7() {
 // @tier quick
 // @timeout 600
 // @fn sna::save; sna::load; ScopedSnapshotState::enter/drop; Z80::push_pc_to_stack; Z80::pop_pc_from_stack; Regs alt getters; ZXController::write_7ffd; ZXController::read_7ffd; ZXMemory::ram_page_data(_mut); DataRecorder::write_all; LoadableAsset::read_exact
-// @sym saver: every register incl. alternates, I, R, IX, IY, IFF1, IFF2, IM, border, PC, witness RAM value; receiver: all registers, border, PC, IFF1, its own byte in the witness bank; 7FFD values concrete per query
-// @assert save Ok, file length 131103 (147487 when bank 2/5 is paged); saver registers/PC/IFF1/RAM witness/latch/lock unchanged; after load every SNA item, PC, 7FFD latch, lock, map at C000, ROM, screen bank equal the saver's; RAM witness equal in its bank and through the CPU map when paged
+// @sym saver: every register incl. alternates, I, R, IX, IY, IFF1, IFF2, IM, border, PC, frame clock, witness RAM value; receiver: all registers, border, PC, IFF1, its own byte in the witness bank; 7FFD values concrete per query
+// @assert save Ok, file length 131103 (147487 when bank 2/5 is paged); saver registers/PC/IFF1/RAM witness/latch/lock/frame clock unchanged; after load every SNA item, PC, 7FFD latch, lock, map at C000, ROM, screen bank equal the saver's; RAM witness equal in its bank and through the CPU map when paged
 // @bound 1 save + 1 load, 128K; witness bank 2 offset 0x1B00; saver 7FFD = 0x10|2, receiver 7FFD before load = 0x0B (concrete: a symbolic port byte makes the page pointer symbolic -> CBMC out of memory at 10 GB)
-// @assume HL' == HL in the saver (complement is KF-C13-1); receiver CPU not halted / EI-pending / mid-prefix and (128K) paging not locked before the load (complements KF-C13-4, KF-C13-5)
+// @assume receiver CPU not halted / EI-pending / mid-prefix before the load (that region: c13_rt128_into_busy_cpu)
 // @outside RAM offsets outside the witness class {0,1,0x1AFF,0x1B00,0x3FFE,0x3FFF} (whole-page slice copies); symbolic SP (a symbolic-address store into the 48K Vec followed by the recorder reads did not finish in 900 s); display refresh; 7FFD values not enumerated
 // @stub ZXController::refresh_memory_dependent_devices -> no-op; ZXScreen::process_clocks -> no-op (display is C08's subject)
 // @replay solver-only
@@ -1108,10 +1133,10 @@ fn c13_rt128_bank2_paged2() {
 // @tier quick
 // @timeout 600
 // @fn sna::save; sna::load; ScopedSnapshotState::enter/drop; Z80::push_pc_to_stack; Z80::pop_pc_from_stack; Regs alt getters; ZXController::write_7ffd; ZXController::read_7ffd; ZXMemory::ram_page_data(_mut); DataRecorder::write_all; LoadableAsset::read_exact
-// @sym saver: every register incl. alternates, I, R, IX, IY, IFF1, IFF2, IM, border, PC, witness RAM value; receiver: all registers, border, PC, IFF1, its own byte in the witness bank; 7FFD values concrete per query
-// @assert save Ok, file length 131103 (147487 when bank 2/5 is paged); saver registers/PC/IFF1/RAM witness/latch/lock unchanged; after load every SNA item, PC, 7FFD latch, lock, map at C000, ROM, screen bank equal the saver's; RAM witness equal in its bank and through the CPU map when paged
-// @bound 1 save + 1 load, 128K; witness bank 3 offset 0x3FFF; saver 7FFD = 0x28|3, receiver 7FFD before load = 0x15 (concrete: a symbolic port byte makes the page pointer symbolic -> CBMC out of memory at 10 GB)
-// @assume HL' == HL in the saver (complement is KF-C13-1); receiver CPU not halted / EI-pending / mid-prefix and (128K) paging not locked before the load (complements KF-C13-4, KF-C13-5)
+// @sym saver: every register incl. alternates, I, R, IX, IY, IFF1, IFF2, IM, border, PC, frame clock, witness RAM value; receiver: all registers, border, PC, IFF1, its own byte in the witness bank; 7FFD values concrete per query
+// @assert save Ok, file length 131103 (147487 when bank 2/5 is paged); saver registers/PC/IFF1/RAM witness/latch/lock/frame clock unchanged; after load every SNA item, PC, 7FFD latch, lock, map at C000, ROM, screen bank equal the saver's; RAM witness equal in its bank and through the CPU map when paged
+// @bound 1 save + 1 load, 128K; witness bank 3 offset 0x3FFF; saver 7FFD = 0x28|3, receiver 7FFD before load = 0x35 = paging LOCKED (concrete: a symbolic port byte makes the page pointer symbolic -> CBMC out of memory at 10 GB)
+// @assume receiver CPU not halted / EI-pending / mid-prefix before the load (that region: c13_rt128_into_busy_cpu)
 // @outside RAM offsets outside the witness class {0,1,0x1AFF,0x1B00,0x3FFE,0x3FFF} (whole-page slice copies); symbolic SP (a symbolic-address store into the 48K Vec followed by the recorder reads did not finish in 900 s); display refresh; 7FFD values not enumerated
 // @stub ZXController::refresh_memory_dependent_devices -> no-op; ZXScreen::process_clocks -> no-op (display is C08's subject)
 // @replay solver-only
@@ -1120,7 +1145,7 @@ fn c13_rt128_bank2_paged2() {
 #[kani::stub(ZXController::refresh_memory_dependent_devices, noop_refresh)]
 #[kani::stub(ZXScreen::process_clocks, noop_screen_clocks)]
 fn c13_rt128_bank3_paged3() {
-    c13_rt128_body(3, 3, 0x3FFF, 0x28, 0x15);
+    c13_rt128_body(3, 3, 0x3FFF, 0x28, 0x35);
     kani::cover!(true, "round trip completed");
 }
 
@@ -1129,10 +1154,10 @@ fn c13_rt128_bank3_paged3() {
 // @tier quick
 // @timeout 600
 // @fn sna::save; sna::load; ScopedSnapshotState::enter/drop; Z80::push_pc_to_stack; Z80::pop_pc_from_stack; Regs alt getters; ZXController::write_7ffd; ZXController::read_7ffd; ZXMemory::ram_page_data(_mut); DataRecorder::write_all; LoadableAsset::read_exact
-// @sym saver: every register incl. alternates, I, R, IX, IY, IFF1, IFF2, IM, border, PC, witness RAM value; receiver: all registers, border, PC, IFF1, its own byte in the witness bank; 7FFD values concrete per query
-// @assert save Ok, file length 131103 (147487 when bank 2/5 is paged); saver registers/PC/IFF1/RAM witness/latch/lock unchanged; after load every SNA item, PC, 7FFD latch, lock, map at C000, ROM, screen bank equal the saver's; RAM witness equal in its bank and through the CPU map when paged
+// @sym saver: every register incl. alternates, I, R, IX, IY, IFF1, IFF2, IM, border, PC, frame clock, witness RAM value; receiver: all registers, border, PC, IFF1, its own byte in the witness bank; 7FFD values concrete per query
+// @assert save Ok, file length 131103 (147487 when bank 2/5 is paged); saver registers/PC/IFF1/RAM witness/latch/lock/frame clock unchanged; after load every SNA item, PC, 7FFD latch, lock, map at C000, ROM, screen bank equal the saver's; RAM witness equal in its bank and through the CPU map when paged
 // @bound 1 save + 1 load, 128K; witness bank 4 offset 1; saver 7FFD = 0x38|0, receiver 7FFD before load = 0x04 (concrete: a symbolic port byte makes the page pointer symbolic -> CBMC out of memory at 10 GB)
-// @assume HL' == HL in the saver (complement is KF-C13-1); receiver CPU not halted / EI-pending / mid-prefix and (128K) paging not locked before the load (complements KF-C13-4, KF-C13-5)
+// @assume receiver CPU not halted / EI-pending / mid-prefix before the load (that region: c13_rt128_into_busy_cpu)
 // @outside RAM offsets outside the witness class {0,1,0x1AFF,0x1B00,0x3FFE,0x3FFF} (whole-page slice copies); symbolic SP (a symbolic-address store into the 48K Vec followed by the recorder reads did not finish in 900 s); display refresh; 7FFD values not enumerated
 // @stub ZXController::refresh_memory_dependent_devices -> no-op; ZXScreen::process_clocks -> no-op (display is C08's subject)
 // @replay solver-only
@@ -1150,10 +1175,10 @@ fn c13_rt128_bank4_paged0() {
 // @tier quick
 // @timeout 600
 // @fn sna::save; sna::load; ScopedSnapshotState::enter/drop; Z80::push_pc_to_stack; Z80::pop_pc_from_stack; Regs alt getters; ZXController::write_7ffd; ZXController::read_7ffd; ZXMemory::ram_page_data(_mut); DataRecorder::write_all; LoadableAsset::read_exact
-// @sym saver: every register incl. alternates, I, R, IX, IY, IFF1, IFF2, IM, border, PC, witness RAM value; receiver: all registers, border, PC, IFF1, its own byte in the witness bank; 7FFD values concrete per query
-// @assert save Ok, file length 131103 (147487 when bank 2/5 is paged); saver registers/PC/IFF1/RAM witness/latch/lock unchanged; after load every SNA item, PC, 7FFD latch, lock, map at C000, ROM, screen bank equal the saver's; RAM witness equal in its bank and through the CPU map when paged
-// @bound 1 save + 1 load, 128K; witness bank 5 offset 0x1AFF; saver 7FFD = 0xC0|5, receiver 7FFD before load = 0x1E (concrete: a symbolic port byte makes the page pointer symbolic -> CBMC out of memory at 10 GB)
-// @assume HL' == HL in the saver (complement is KF-C13-1); receiver CPU not halted / EI-pending / mid-prefix and (128K) paging not locked before the load (complements KF-C13-4, KF-C13-5)
+// @sym saver: every register incl. alternates, I, R, IX, IY, IFF1, IFF2, IM, border, PC, frame clock, witness RAM value; receiver: all registers, border, PC, IFF1, its own byte in the witness bank; 7FFD values concrete per query
+// @assert save Ok, file length 131103 (147487 when bank 2/5 is paged); saver registers/PC/IFF1/RAM witness/latch/lock/frame clock unchanged; after load every SNA item, PC, 7FFD latch, lock, map at C000, ROM, screen bank equal the saver's; RAM witness equal in its bank and through the CPU map when paged
+// @bound 1 save + 1 load, 128K; witness bank 5 offset 0x1AFF; saver 7FFD = 0xC0|5, receiver 7FFD before load = 0x3E = paging LOCKED (concrete: a symbolic port byte makes the page pointer symbolic -> CBMC out of memory at 10 GB)
+// @assume receiver CPU not halted / EI-pending / mid-prefix before the load (that region: c13_rt128_into_busy_cpu)
 // @outside RAM offsets outside the witness class {0,1,0x1AFF,0x1B00,0x3FFE,0x3FFF} (whole-page slice copies); symbolic SP (a symbolic-address store into the 48K Vec followed by the recorder reads did not finish in 900 s); display refresh; 7FFD values not enumerated
 // @stub ZXController::refresh_memory_dependent_devices -> no-op; ZXScreen::process_clocks -> no-op (display is C08's subject)
 // @replay solver-only
@@ -1162,7 +1187,7 @@ fn c13_rt128_bank4_paged0() {
 #[kani::stub(ZXController::refresh_memory_dependent_devices, noop_refresh)]
 #[kani::stub(ZXScreen::process_clocks, noop_screen_clocks)]
 fn c13_rt128_bank5_paged5() {
-    c13_rt128_body(5, 5, 0x1AFF, 0xC0, 0x1E);
+    c13_rt128_body(5, 5, 0x1AFF, 0xC0, 0x3E);
     kani::cover!(true, "round trip completed");
 }
 
@@ -1171,10 +1196,10 @@ fn c13_rt128_bank5_paged5() {
 // @tier quick
 // @timeout 600
 // @fn sna::save; sna::load; ScopedSnapshotState::enter/drop; Z80::push_pc_to_stack; Z80::pop_pc_from_stack; Regs alt getters; ZXController::write_7ffd; ZXController::read_7ffd; ZXMemory::ram_page_data(_mut); DataRecorder::write_all; LoadableAsset::read_exact
-// @sym saver: every register incl. alternates, I, R, IX, IY, IFF1, IFF2, IM, border, PC, witness RAM value; receiver: all registers, border, PC, IFF1, its own byte in the witness bank; 7FFD values concrete per query
-// @assert save Ok, file length 131103 (147487 when bank 2/5 is paged); saver registers/PC/IFF1/RAM witness/latch/lock unchanged; after load every SNA item, PC, 7FFD latch, lock, map at C000, ROM, screen bank equal the saver's; RAM witness equal in its bank and through the CPU map when paged
+// @sym saver: every register incl. alternates, I, R, IX, IY, IFF1, IFF2, IM, border, PC, frame clock, witness RAM value; receiver: all registers, border, PC, IFF1, its own byte in the witness bank; 7FFD values concrete per query
+// @assert save Ok, file length 131103 (147487 when bank 2/5 is paged); saver registers/PC/IFF1/RAM witness/latch/lock/frame clock unchanged; after load every SNA item, PC, 7FFD latch, lock, map at C000, ROM, screen bank equal the saver's; RAM witness equal in its bank and through the CPU map when paged
 // @bound 1 save + 1 load, 128K; witness bank 6 offset 0x3FFE; saver 7FFD = 0x20|1, receiver 7FFD before load = 0x00 (concrete: a symbolic port byte makes the page pointer symbolic -> CBMC out of memory at 10 GB)
-// @assume HL' == HL in the saver (complement is KF-C13-1); receiver CPU not halted / EI-pending / mid-prefix and (128K) paging not locked before the load (complements KF-C13-4, KF-C13-5)
+// @assume receiver CPU not halted / EI-pending / mid-prefix before the load (that region: c13_rt128_into_busy_cpu)
 // @outside RAM offsets outside the witness class {0,1,0x1AFF,0x1B00,0x3FFE,0x3FFF} (whole-page slice copies); symbolic SP (a symbolic-address store into the 48K Vec followed by the recorder reads did not finish in 900 s); display refresh; 7FFD values not enumerated
 // @stub ZXController::refresh_memory_dependent_devices -> no-op; ZXScreen::process_clocks -> no-op (display is C08's subject)
 // @replay solver-only
@@ -1192,10 +1217,10 @@ fn c13_rt128_bank6_paged1() {
 // @tier quick
 // @timeout 600
 // @fn sna::save; sna::load; ScopedSnapshotState::enter/drop; Z80::push_pc_to_stack; Z80::pop_pc_from_stack; Regs alt getters; ZXController::write_7ffd; ZXController::read_7ffd; ZXMemory::ram_page_data(_mut); DataRecorder::write_all; LoadableAsset::read_exact
-// @sym saver: every register incl. alternates, I, R, IX, IY, IFF1, IFF2, IM, border, PC, witness RAM value; receiver: all registers, border, PC, IFF1, its own byte in the witness bank; 7FFD values concrete per query
-// @assert save Ok, file length 131103 (147487 when bank 2/5 is paged); saver registers/PC/IFF1/RAM witness/latch/lock unchanged; after load every SNA item, PC, 7FFD latch, lock, map at C000, ROM, screen bank equal the saver's; RAM witness equal in its bank and through the CPU map when paged
-// @bound 1 save + 1 load, 128K; witness bank 7 offset 0; saver 7FFD = 0x18|7, receiver 7FFD before load = 0x03 (concrete: a symbolic port byte makes the page pointer symbolic -> CBMC out of memory at 10 GB)
-// @assume HL' == HL in the saver (complement is KF-C13-1); receiver CPU not halted / EI-pending / mid-prefix and (128K) paging not locked before the load (complements KF-C13-4, KF-C13-5)
+// @sym saver: every register incl. alternates, I, R, IX, IY, IFF1, IFF2, IM, border, PC, frame clock, witness RAM value; receiver: all registers, border, PC, IFF1, its own byte in the witness bank; 7FFD values concrete per query
+// @assert save Ok, file length 131103 (147487 when bank 2/5 is paged); saver registers/PC/IFF1/RAM witness/latch/lock/frame clock unchanged; after load every SNA item, PC, 7FFD latch, lock, map at C000, ROM, screen bank equal the saver's; RAM witness equal in its bank and through the CPU map when paged
+// @bound 1 save + 1 load, 128K; witness bank 7 offset 0; saver 7FFD = 0x18|7, receiver 7FFD before load = 0x23 = paging LOCKED (concrete: a symbolic port byte makes the page pointer symbolic -> CBMC out of memory at 10 GB)
+// @assume receiver CPU not halted / EI-pending / mid-prefix before the load (that region: c13_rt128_into_busy_cpu)
 // @outside RAM offsets outside the witness class {0,1,0x1AFF,0x1B00,0x3FFE,0x3FFF} (whole-page slice copies); symbolic SP (a symbolic-address store into the 48K Vec followed by the recorder reads did not finish in 900 s); display refresh; 7FFD values not enumerated
 // @stub ZXController::refresh_memory_dependent_devices -> no-op; ZXScreen::process_clocks -> no-op (display is C08's subject)
 // @replay solver-only
@@ -1204,7 +1229,7 @@ fn c13_rt128_bank6_paged1() {
 #[kani::stub(ZXController::refresh_memory_dependent_devices, noop_refresh)]
 #[kani::stub(ZXScreen::process_clocks, noop_screen_clocks)]
 fn c13_rt128_bank7_paged7() {
-    c13_rt128_body(7, 7, 0, 0x18, 0x03);
+    c13_rt128_body(7, 7, 0, 0x18, 0x23);
     kani::cover!(true, "round trip completed");
 }
 
@@ -1213,10 +1238,10 @@ fn c13_rt128_bank7_paged7() {
 // @tier thorough
 // @timeout 3600
 // @fn sna::save; sna::load; ScopedSnapshotState::enter/drop; Z80::push_pc_to_stack; Z80::pop_pc_from_stack; Regs alt getters; ZXController::write_7ffd; ZXController::read_7ffd; ZXMemory::ram_page_data(_mut); DataRecorder::write_all; LoadableAsset::read_exact
-// @sym saver: every register incl. alternates, I, R, IX, IY, IFF1, IFF2, IM, border, PC, witness RAM value; receiver: all registers, border, PC, IFF1, its own byte in the witness bank; 7FFD values concrete per query
-// @assert save Ok, file length 131103 (147487 when bank 2/5 is paged); saver registers/PC/IFF1/RAM witness/latch/lock unchanged; after load every SNA item, PC, 7FFD latch, lock, map at C000, ROM, screen bank equal the saver's; RAM witness equal in its bank and through the CPU map when paged
+// @sym saver: every register incl. alternates, I, R, IX, IY, IFF1, IFF2, IM, border, PC, frame clock, witness RAM value; receiver: all registers, border, PC, IFF1, its own byte in the witness bank; 7FFD values concrete per query
+// @assert save Ok, file length 131103 (147487 when bank 2/5 is paged); saver registers/PC/IFF1/RAM witness/latch/lock/frame clock unchanged; after load every SNA item, PC, 7FFD latch, lock, map at C000, ROM, screen bank equal the saver's; RAM witness equal in its bank and through the CPU map when paged
 // @bound 8 x (1 save + 1 load), 128K; witness bank 0 offset 0; every paged bank 0..7 with rotating high 7FFD bits
-// @assume HL' == HL in the saver (complement is KF-C13-1); receiver CPU not halted / EI-pending / mid-prefix and (128K) paging not locked before the load (complements KF-C13-4, KF-C13-5)
+// @assume receiver CPU not halted / EI-pending / mid-prefix before the load (that region: c13_rt128_into_busy_cpu)
 // @outside RAM offsets outside the witness class {0,1,0x1AFF,0x1B00,0x3FFE,0x3FFF} (whole-page slice copies); symbolic SP (a symbolic-address store into the 48K Vec followed by the recorder reads did not finish in 900 s); display refresh; 7FFD values not enumerated
 // @stub ZXController::refresh_memory_dependent_devices -> no-op; ZXScreen::process_clocks -> no-op (display is C08's subject)
 // @replay solver-only
@@ -1228,7 +1253,7 @@ fn c13_rt128_bank0_all_paged() {
     let his: [u8; 8] = [0x00, 0x08, 0x10, 0x20, 0x38, 0xC0, 0x28, 0x18];
     let mut paged = 0u8;
     while paged < 8 {
-        c13_rt128_body(0, paged, 0, his[((paged + 0) & 7) as usize], his[((paged + 5) & 7) as usize] & 0x1F | ((paged + 3) & 7));
+        c13_rt128_body(0, paged, 0, his[((paged + 0) & 7) as usize], his[((paged + 5) & 7) as usize] & 0x1F | ((paged + 3) & 7) | ((paged & 1) << 5));
         paged += 1;
     }
     kani::cover!(true, "all eight paged banks done");
@@ -1239,10 +1264,10 @@ fn c13_rt128_bank0_all_paged() {
 // @tier thorough
 // @timeout 3600
 // @fn sna::save; sna::load; ScopedSnapshotState::enter/drop; Z80::push_pc_to_stack; Z80::pop_pc_from_stack; Regs alt getters; ZXController::write_7ffd; ZXController::read_7ffd; ZXMemory::ram_page_data(_mut); DataRecorder::write_all; LoadableAsset::read_exact
-// @sym saver: every register incl. alternates, I, R, IX, IY, IFF1, IFF2, IM, border, PC, witness RAM value; receiver: all registers, border, PC, IFF1, its own byte in the witness bank; 7FFD values concrete per query
-// @assert save Ok, file length 131103 (147487 when bank 2/5 is paged); saver registers/PC/IFF1/RAM witness/latch/lock unchanged; after load every SNA item, PC, 7FFD latch, lock, map at C000, ROM, screen bank equal the saver's; RAM witness equal in its bank and through the CPU map when paged
+// @sym saver: every register incl. alternates, I, R, IX, IY, IFF1, IFF2, IM, border, PC, frame clock, witness RAM value; receiver: all registers, border, PC, IFF1, its own byte in the witness bank; 7FFD values concrete per query
+// @assert save Ok, file length 131103 (147487 when bank 2/5 is paged); saver registers/PC/IFF1/RAM witness/latch/lock/frame clock unchanged; after load every SNA item, PC, 7FFD latch, lock, map at C000, ROM, screen bank equal the saver's; RAM witness equal in its bank and through the CPU map when paged
 // @bound 8 x (1 save + 1 load), 128K; witness bank 1 offset 0x3FFF; every paged bank 0..7 with rotating high 7FFD bits
-// @assume HL' == HL in the saver (complement is KF-C13-1); receiver CPU not halted / EI-pending / mid-prefix and (128K) paging not locked before the load (complements KF-C13-4, KF-C13-5)
+// @assume receiver CPU not halted / EI-pending / mid-prefix before the load (that region: c13_rt128_into_busy_cpu)
 // @outside RAM offsets outside the witness class {0,1,0x1AFF,0x1B00,0x3FFE,0x3FFF} (whole-page slice copies); symbolic SP (a symbolic-address store into the 48K Vec followed by the recorder reads did not finish in 900 s); display refresh; 7FFD values not enumerated
 // @stub ZXController::refresh_memory_dependent_devices -> no-op; ZXScreen::process_clocks -> no-op (display is C08's subject)
 // @replay solver-only
@@ -1254,7 +1279,7 @@ fn c13_rt128_bank1_all_paged() {
     let his: [u8; 8] = [0x00, 0x08, 0x10, 0x20, 0x38, 0xC0, 0x28, 0x18];
     let mut paged = 0u8;
     while paged < 8 {
-        c13_rt128_body(1, paged, 0x3FFF, his[((paged + 1) & 7) as usize], his[((paged + 6) & 7) as usize] & 0x1F | ((paged + 3) & 7));
+        c13_rt128_body(1, paged, 0x3FFF, his[((paged + 1) & 7) as usize], his[((paged + 6) & 7) as usize] & 0x1F | ((paged + 3) & 7) | ((paged & 1) << 5));
         paged += 1;
     }
     kani::cover!(true, "all eight paged banks done");
@@ -1265,10 +1290,10 @@ fn c13_rt128_bank1_all_paged() {
 // @tier thorough
 // @timeout 3600
 // @fn sna::save; sna::load; ScopedSnapshotState::enter/drop; Z80::push_pc_to_stack; Z80::pop_pc_from_stack; Regs alt getters; ZXController::write_7ffd; ZXController::read_7ffd; ZXMemory::ram_page_data(_mut); DataRecorder::write_all; LoadableAsset::read_exact
-// @sym saver: every register incl. alternates, I, R, IX, IY, IFF1, IFF2, IM, border, PC, witness RAM value; receiver: all registers, border, PC, IFF1, its own byte in the witness bank; 7FFD values concrete per query
-// @assert save Ok, file length 131103 (147487 when bank 2/5 is paged); saver registers/PC/IFF1/RAM witness/latch/lock unchanged; after load every SNA item, PC, 7FFD latch, lock, map at C000, ROM, screen bank equal the saver's; RAM witness equal in its bank and through the CPU map when paged
+// @sym saver: every register incl. alternates, I, R, IX, IY, IFF1, IFF2, IM, border, PC, frame clock, witness RAM value; receiver: all registers, border, PC, IFF1, its own byte in the witness bank; 7FFD values concrete per query
+// @assert save Ok, file length 131103 (147487 when bank 2/5 is paged); saver registers/PC/IFF1/RAM witness/latch/lock/frame clock unchanged; after load every SNA item, PC, 7FFD latch, lock, map at C000, ROM, screen bank equal the saver's; RAM witness equal in its bank and through the CPU map when paged
 // @bound 8 x (1 save + 1 load), 128K; witness bank 2 offset 0x1B00; every paged bank 0..7 with rotating high 7FFD bits
-// @assume HL' == HL in the saver (complement is KF-C13-1); receiver CPU not halted / EI-pending / mid-prefix and (128K) paging not locked before the load (complements KF-C13-4, KF-C13-5)
+// @assume receiver CPU not halted / EI-pending / mid-prefix before the load (that region: c13_rt128_into_busy_cpu)
 // @outside RAM offsets outside the witness class {0,1,0x1AFF,0x1B00,0x3FFE,0x3FFF} (whole-page slice copies); symbolic SP (a symbolic-address store into the 48K Vec followed by the recorder reads did not finish in 900 s); display refresh; 7FFD values not enumerated
 // @stub ZXController::refresh_memory_dependent_devices -> no-op; ZXScreen::process_clocks -> no-op (display is C08's subject)
 // @replay solver-only
@@ -1280,7 +1305,7 @@ fn c13_rt128_bank2_all_paged() {
     let his: [u8; 8] = [0x00, 0x08, 0x10, 0x20, 0x38, 0xC0, 0x28, 0x18];
     let mut paged = 0u8;
     while paged < 8 {
-        c13_rt128_body(2, paged, 0x1B00, his[((paged + 2) & 7) as usize], his[((paged + 7) & 7) as usize] & 0x1F | ((paged + 3) & 7));
+        c13_rt128_body(2, paged, 0x1B00, his[((paged + 2) & 7) as usize], his[((paged + 7) & 7) as usize] & 0x1F | ((paged + 3) & 7) | ((paged & 1) << 5));
         paged += 1;
     }
     kani::cover!(true, "all eight paged banks done");
@@ -1291,10 +1316,10 @@ fn c13_rt128_bank2_all_paged() {
 // @tier thorough
 // @timeout 3600
 // @fn sna::save; sna::load; ScopedSnapshotState::enter/drop; Z80::push_pc_to_stack; Z80::pop_pc_from_stack; Regs alt getters; ZXController::write_7ffd; ZXController::read_7ffd; ZXMemory::ram_page_data(_mut); DataRecorder::write_all; LoadableAsset::read_exact
-// @sym saver: every register incl. alternates, I, R, IX, IY, IFF1, IFF2, IM, border, PC, witness RAM value; receiver: all registers, border, PC, IFF1, its own byte in the witness bank; 7FFD values concrete per query
-// @assert save Ok, file length 131103 (147487 when bank 2/5 is paged); saver registers/PC/IFF1/RAM witness/latch/lock unchanged; after load every SNA item, PC, 7FFD latch, lock, map at C000, ROM, screen bank equal the saver's; RAM witness equal in its bank and through the CPU map when paged
+// @sym saver: every register incl. alternates, I, R, IX, IY, IFF1, IFF2, IM, border, PC, frame clock, witness RAM value; receiver: all registers, border, PC, IFF1, its own byte in the witness bank; 7FFD values concrete per query
+// @assert save Ok, file length 131103 (147487 when bank 2/5 is paged); saver registers/PC/IFF1/RAM witness/latch/lock/frame clock unchanged; after load every SNA item, PC, 7FFD latch, lock, map at C000, ROM, screen bank equal the saver's; RAM witness equal in its bank and through the CPU map when paged
 // @bound 8 x (1 save + 1 load), 128K; witness bank 3 offset 1; every paged bank 0..7 with rotating high 7FFD bits
-// @assume HL' == HL in the saver (complement is KF-C13-1); receiver CPU not halted / EI-pending / mid-prefix and (128K) paging not locked before the load (complements KF-C13-4, KF-C13-5)
+// @assume receiver CPU not halted / EI-pending / mid-prefix before the load (that region: c13_rt128_into_busy_cpu)
 // @outside RAM offsets outside the witness class {0,1,0x1AFF,0x1B00,0x3FFE,0x3FFF} (whole-page slice copies); symbolic SP (a symbolic-address store into the 48K Vec followed by the recorder reads did not finish in 900 s); display refresh; 7FFD values not enumerated
 // @stub ZXController::refresh_memory_dependent_devices -> no-op; ZXScreen::process_clocks -> no-op (display is C08's subject)
 // @replay solver-only
@@ -1306,7 +1331,7 @@ fn c13_rt128_bank3_all_paged() {
     let his: [u8; 8] = [0x00, 0x08, 0x10, 0x20, 0x38, 0xC0, 0x28, 0x18];
     let mut paged = 0u8;
     while paged < 8 {
-        c13_rt128_body(3, paged, 1, his[((paged + 3) & 7) as usize], his[((paged + 8) & 7) as usize] & 0x1F | ((paged + 3) & 7));
+        c13_rt128_body(3, paged, 1, his[((paged + 3) & 7) as usize], his[((paged + 8) & 7) as usize] & 0x1F | ((paged + 3) & 7) | ((paged & 1) << 5));
         paged += 1;
     }
     kani::cover!(true, "all eight paged banks done");
@@ -1317,10 +1342,10 @@ fn c13_rt128_bank3_all_paged() {
 // @tier thorough
 // @timeout 3600
 // @fn sna::save; sna::load; ScopedSnapshotState::enter/drop; Z80::push_pc_to_stack; Z80::pop_pc_from_stack; Regs alt getters; ZXController::write_7ffd; ZXController::read_7ffd; ZXMemory::ram_page_data(_mut); DataRecorder::write_all; LoadableAsset::read_exact
-// @sym saver: every register incl. alternates, I, R, IX, IY, IFF1, IFF2, IM, border, PC, witness RAM value; receiver: all registers, border, PC, IFF1, its own byte in the witness bank; 7FFD values concrete per query
-// @assert save Ok, file length 131103 (147487 when bank 2/5 is paged); saver registers/PC/IFF1/RAM witness/latch/lock unchanged; after load every SNA item, PC, 7FFD latch, lock, map at C000, ROM, screen bank equal the saver's; RAM witness equal in its bank and through the CPU map when paged
+// @sym saver: every register incl. alternates, I, R, IX, IY, IFF1, IFF2, IM, border, PC, frame clock, witness RAM value; receiver: all registers, border, PC, IFF1, its own byte in the witness bank; 7FFD values concrete per query
+// @assert save Ok, file length 131103 (147487 when bank 2/5 is paged); saver registers/PC/IFF1/RAM witness/latch/lock/frame clock unchanged; after load every SNA item, PC, 7FFD latch, lock, map at C000, ROM, screen bank equal the saver's; RAM witness equal in its bank and through the CPU map when paged
 // @bound 8 x (1 save + 1 load), 128K; witness bank 4 offset 0x3FFE; every paged bank 0..7 with rotating high 7FFD bits
-// @assume HL' == HL in the saver (complement is KF-C13-1); receiver CPU not halted / EI-pending / mid-prefix and (128K) paging not locked before the load (complements KF-C13-4, KF-C13-5)
+// @assume receiver CPU not halted / EI-pending / mid-prefix before the load (that region: c13_rt128_into_busy_cpu)
 // @outside RAM offsets outside the witness class {0,1,0x1AFF,0x1B00,0x3FFE,0x3FFF} (whole-page slice copies); symbolic SP (a symbolic-address store into the 48K Vec followed by the recorder reads did not finish in 900 s); display refresh; 7FFD values not enumerated
 // @stub ZXController::refresh_memory_dependent_devices -> no-op; ZXScreen::process_clocks -> no-op (display is C08's subject)
 // @replay solver-only
@@ -1332,7 +1357,7 @@ fn c13_rt128_bank4_all_paged() {
     let his: [u8; 8] = [0x00, 0x08, 0x10, 0x20, 0x38, 0xC0, 0x28, 0x18];
     let mut paged = 0u8;
     while paged < 8 {
-        c13_rt128_body(4, paged, 0x3FFE, his[((paged + 4) & 7) as usize], his[((paged + 9) & 7) as usize] & 0x1F | ((paged + 3) & 7));
+        c13_rt128_body(4, paged, 0x3FFE, his[((paged + 4) & 7) as usize], his[((paged + 9) & 7) as usize] & 0x1F | ((paged + 3) & 7) | ((paged & 1) << 5));
         paged += 1;
     }
     kani::cover!(true, "all eight paged banks done");
@@ -1343,10 +1368,10 @@ fn c13_rt128_bank4_all_paged() {
 // @tier thorough
 // @timeout 3600
 // @fn sna::save; sna::load; ScopedSnapshotState::enter/drop; Z80::push_pc_to_stack; Z80::pop_pc_from_stack; Regs alt getters; ZXController::write_7ffd; ZXController::read_7ffd; ZXMemory::ram_page_data(_mut); DataRecorder::write_all; LoadableAsset::read_exact
-// @sym saver: every register incl. alternates, I, R, IX, IY, IFF1, IFF2, IM, border, PC, witness RAM value; receiver: all registers, border, PC, IFF1, its own byte in the witness bank; 7FFD values concrete per query
-// @assert save Ok, file length 131103 (147487 when bank 2/5 is paged); saver registers/PC/IFF1/RAM witness/latch/lock unchanged; after load every SNA item, PC, 7FFD latch, lock, map at C000, ROM, screen bank equal the saver's; RAM witness equal in its bank and through the CPU map when paged
+// @sym saver: every register incl. alternates, I, R, IX, IY, IFF1, IFF2, IM, border, PC, frame clock, witness RAM value; receiver: all registers, border, PC, IFF1, its own byte in the witness bank; 7FFD values concrete per query
+// @assert save Ok, file length 131103 (147487 when bank 2/5 is paged); saver registers/PC/IFF1/RAM witness/latch/lock/frame clock unchanged; after load every SNA item, PC, 7FFD latch, lock, map at C000, ROM, screen bank equal the saver's; RAM witness equal in its bank and through the CPU map when paged
 // @bound 8 x (1 save + 1 load), 128K; witness bank 5 offset 0x1AFF; every paged bank 0..7 with rotating high 7FFD bits
-// @assume HL' == HL in the saver (complement is KF-C13-1); receiver CPU not halted / EI-pending / mid-prefix and (128K) paging not locked before the load (complements KF-C13-4, KF-C13-5)
+// @assume receiver CPU not halted / EI-pending / mid-prefix before the load (that region: c13_rt128_into_busy_cpu)
 // @outside RAM offsets outside the witness class {0,1,0x1AFF,0x1B00,0x3FFE,0x3FFF} (whole-page slice copies); symbolic SP (a symbolic-address store into the 48K Vec followed by the recorder reads did not finish in 900 s); display refresh; 7FFD values not enumerated
 // @stub ZXController::refresh_memory_dependent_devices -> no-op; ZXScreen::process_clocks -> no-op (display is C08's subject)
 // @replay solver-only
@@ -1358,7 +1383,7 @@ fn c13_rt128_bank5_all_paged() {
     let his: [u8; 8] = [0x00, 0x08, 0x10, 0x20, 0x38, 0xC0, 0x28, 0x18];
     let mut paged = 0u8;
     while paged < 8 {
-        c13_rt128_body(5, paged, 0x1AFF, his[((paged + 5) & 7) as usize], his[((paged + 10) & 7) as usize] & 0x1F | ((paged + 3) & 7));
+        c13_rt128_body(5, paged, 0x1AFF, his[((paged + 5) & 7) as usize], his[((paged + 10) & 7) as usize] & 0x1F | ((paged + 3) & 7) | ((paged & 1) << 5));
         paged += 1;
     }
     kani::cover!(true, "all eight paged banks done");
@@ -1369,10 +1394,10 @@ fn c13_rt128_bank5_all_paged() {
 // @tier thorough
 // @timeout 3600
 // @fn sna::save; sna::load; ScopedSnapshotState::enter/drop; Z80::push_pc_to_stack; Z80::pop_pc_from_stack; Regs alt getters; ZXController::write_7ffd; ZXController::read_7ffd; ZXMemory::ram_page_data(_mut); DataRecorder::write_all; LoadableAsset::read_exact
-// @sym saver: every register incl. alternates, I, R, IX, IY, IFF1, IFF2, IM, border, PC, witness RAM value; receiver: all registers, border, PC, IFF1, its own byte in the witness bank; 7FFD values concrete per query
-// @assert save Ok, file length 131103 (147487 when bank 2/5 is paged); saver registers/PC/IFF1/RAM witness/latch/lock unchanged; after load every SNA item, PC, 7FFD latch, lock, map at C000, ROM, screen bank equal the saver's; RAM witness equal in its bank and through the CPU map when paged
+// @sym saver: every register incl. alternates, I, R, IX, IY, IFF1, IFF2, IM, border, PC, frame clock, witness RAM value; receiver: all registers, border, PC, IFF1, its own byte in the witness bank; 7FFD values concrete per query
+// @assert save Ok, file length 131103 (147487 when bank 2/5 is paged); saver registers/PC/IFF1/RAM witness/latch/lock/frame clock unchanged; after load every SNA item, PC, 7FFD latch, lock, map at C000, ROM, screen bank equal the saver's; RAM witness equal in its bank and through the CPU map when paged
 // @bound 8 x (1 save + 1 load), 128K; witness bank 6 offset 0x3FFF; every paged bank 0..7 with rotating high 7FFD bits
-// @assume HL' == HL in the saver (complement is KF-C13-1); receiver CPU not halted / EI-pending / mid-prefix and (128K) paging not locked before the load (complements KF-C13-4, KF-C13-5)
+// @assume receiver CPU not halted / EI-pending / mid-prefix before the load (that region: c13_rt128_into_busy_cpu)
 // @outside RAM offsets outside the witness class {0,1,0x1AFF,0x1B00,0x3FFE,0x3FFF} (whole-page slice copies); symbolic SP (a symbolic-address store into the 48K Vec followed by the recorder reads did not finish in 900 s); display refresh; 7FFD values not enumerated
 // @stub ZXController::refresh_memory_dependent_devices -> no-op; ZXScreen::process_clocks -> no-op (display is C08's subject)
 // @replay solver-only
@@ -1384,7 +1409,7 @@ fn c13_rt128_bank6_all_paged() {
     let his: [u8; 8] = [0x00, 0x08, 0x10, 0x20, 0x38, 0xC0, 0x28, 0x18];
     let mut paged = 0u8;
     while paged < 8 {
-        c13_rt128_body(6, paged, 0x3FFF, his[((paged + 6) & 7) as usize], his[((paged + 11) & 7) as usize] & 0x1F | ((paged + 3) & 7));
+        c13_rt128_body(6, paged, 0x3FFF, his[((paged + 6) & 7) as usize], his[((paged + 11) & 7) as usize] & 0x1F | ((paged + 3) & 7) | ((paged & 1) << 5));
         paged += 1;
     }
     kani::cover!(true, "all eight paged banks done");
@@ -1395,10 +1420,10 @@ fn c13_rt128_bank6_all_paged() {
 // @tier thorough
 // @timeout 3600
 // @fn sna::save; sna::load; ScopedSnapshotState::enter/drop; Z80::push_pc_to_stack; Z80::pop_pc_from_stack; Regs alt getters; ZXController::write_7ffd; ZXController::read_7ffd; ZXMemory::ram_page_data(_mut); DataRecorder::write_all; LoadableAsset::read_exact
-// @sym saver: every register incl. alternates, I, R, IX, IY, IFF1, IFF2, IM, border, PC, witness RAM value; receiver: all registers, border, PC, IFF1, its own byte in the witness bank; 7FFD values concrete per query
-// @assert save Ok, file length 131103 (147487 when bank 2/5 is paged); saver registers/PC/IFF1/RAM witness/latch/lock unchanged; after load every SNA item, PC, 7FFD latch, lock, map at C000, ROM, screen bank equal the saver's; RAM witness equal in its bank and through the CPU map when paged
+// @sym saver: every register incl. alternates, I, R, IX, IY, IFF1, IFF2, IM, border, PC, frame clock, witness RAM value; receiver: all registers, border, PC, IFF1, its own byte in the witness bank; 7FFD values concrete per query
+// @assert save Ok, file length 131103 (147487 when bank 2/5 is paged); saver registers/PC/IFF1/RAM witness/latch/lock/frame clock unchanged; after load every SNA item, PC, 7FFD latch, lock, map at C000, ROM, screen bank equal the saver's; RAM witness equal in its bank and through the CPU map when paged
 // @bound 8 x (1 save + 1 load), 128K; witness bank 7 offset 0; every paged bank 0..7 with rotating high 7FFD bits
-// @assume HL' == HL in the saver (complement is KF-C13-1); receiver CPU not halted / EI-pending / mid-prefix and (128K) paging not locked before the load (complements KF-C13-4, KF-C13-5)
+// @assume receiver CPU not halted / EI-pending / mid-prefix before the load (that region: c13_rt128_into_busy_cpu)
 // @outside RAM offsets outside the witness class {0,1,0x1AFF,0x1B00,0x3FFE,0x3FFF} (whole-page slice copies); symbolic SP (a symbolic-address store into the 48K Vec followed by the recorder reads did not finish in 900 s); display refresh; 7FFD values not enumerated
 // @stub ZXController::refresh_memory_dependent_devices -> no-op; ZXScreen::process_clocks -> no-op (display is C08's subject)
 // @replay solver-only
@@ -1410,7 +1435,7 @@ fn c13_rt128_bank7_all_paged() {
     let his: [u8; 8] = [0x00, 0x08, 0x10, 0x20, 0x38, 0xC0, 0x28, 0x18];
     let mut paged = 0u8;
     while paged < 8 {
-        c13_rt128_body(7, paged, 0, his[((paged + 7) & 7) as usize], his[((paged + 12) & 7) as usize] & 0x1F | ((paged + 3) & 7));
+        c13_rt128_body(7, paged, 0, his[((paged + 7) & 7) as usize], his[((paged + 12) & 7) as usize] & 0x1F | ((paged + 3) & 7) | ((paged & 1) << 5));
         paged += 1;
     }
     kani::cover!(true, "all eight paged banks done");
@@ -1424,7 +1449,7 @@ fn c13_rt128_bank7_all_paged() {
 // @sym all 27 header bytes through the spec encoder (every register, IFF2, IM 0..2, border 0..7, undefined bits of byte 19), witness RAM value, receiver registers/border/PC/IFF1, receiver's byte at the witness address
 // @assert load returns Ok; every SNA item equals the encoded abstract state (SP advanced by the PC pop), IFF1 = IFF2, PC = the word at SP when SP,SP+1 are RAM, RAM witness = file byte, CPU neither halted nor EI-pending
 // @bound one load; 48K; witness page 1 offset 0x3FFF; SP Some(0xBFFF); everything else symbolic
-// @assume receiver CPU not halted / no EI pending / no prefix pending and (128K) paging unlocked before the load (complements: KF-C14-1, KF-C14-2)
+// @assume receiver CPU not halted / no EI pending / no prefix pending before the load (that region: c14_sna_into_busy_cpu)
 // @outside RAM offsets outside the witness class (page transfers are whole-slice copies); display refresh
 // @stub ZXController::refresh_memory_dependent_devices -> no-op; ZXScreen::process_clocks -> no-op (display is C08's subject)
 // @replay solver-only
@@ -1444,7 +1469,7 @@ fn c14_sna48_load_p1_last_sp_on_witness() {
 // @sym all 27 header bytes through the spec encoder (every register, IFF2, IM 0..2, border 0..7, undefined bits of byte 19), witness RAM value, receiver registers/border/PC/IFF1, receiver's byte at the witness address
 // @assert load returns Ok; every SNA item equals the encoded abstract state (SP advanced by the PC pop), IFF1 = IFF2, PC = the word at SP when SP,SP+1 are RAM, RAM witness = file byte, CPU neither halted nor EI-pending
 // @bound one load; 48K; witness page 2 offset 0x1B00; SP Some(0x1234); everything else symbolic
-// @assume receiver CPU not halted / no EI pending / no prefix pending and (128K) paging unlocked before the load (complements: KF-C14-1, KF-C14-2)
+// @assume receiver CPU not halted / no EI pending / no prefix pending before the load (that region: c14_sna_into_busy_cpu)
 // @outside RAM offsets outside the witness class (page transfers are whole-slice copies); display refresh
 // @stub ZXController::refresh_memory_dependent_devices -> no-op; ZXScreen::process_clocks -> no-op (display is C08's subject)
 // @replay solver-only
@@ -1464,7 +1489,7 @@ fn c14_sna48_load_p2_attr_sp_rom() {
 // @sym all 27 header bytes through the spec encoder (every register, IFF2, IM 0..2, border 0..7, undefined bits of byte 19), witness RAM value, receiver registers/border/PC/IFF1, receiver's byte at the witness address
 // @assert load returns Ok; every SNA item equals the encoded abstract state (SP advanced by the PC pop), IFF1 = IFF2, PC = the word at SP when SP,SP+1 are RAM, RAM witness = file byte, CPU neither halted nor EI-pending
 // @bound one load; 48K; witness page 2 offset 0x3FFF; SP Some(0xFFFE); everything else symbolic
-// @assume receiver CPU not halted / no EI pending / no prefix pending and (128K) paging unlocked before the load (complements: KF-C14-1, KF-C14-2)
+// @assume receiver CPU not halted / no EI pending / no prefix pending before the load (that region: c14_sna_into_busy_cpu)
 // @outside RAM offsets outside the witness class (page transfers are whole-slice copies); display refresh
 // @stub ZXController::refresh_memory_dependent_devices -> no-op; ZXScreen::process_clocks -> no-op (display is C08's subject)
 // @replay solver-only
@@ -1484,7 +1509,7 @@ fn c14_sna48_load_p2_last_sp_hi_on_witness() {
 // @sym all 27 header bytes through the spec encoder (every register, IFF2, IM 0..2, border 0..7, undefined bits of byte 19), witness RAM value, receiver registers/border/PC/IFF1, receiver's byte at the witness address
 // @assert load returns Ok; every SNA item equals the encoded abstract state (SP advanced by the PC pop), IFF1 = IFF2, PC = the word at SP when SP,SP+1 are RAM, RAM witness = file byte, CPU neither halted nor EI-pending
 // @bound one load; 48K; witness page 0 offset 0x1AFF; SP Some(0x5AFE); everything else symbolic
-// @assume receiver CPU not halted / no EI pending / no prefix pending and (128K) paging unlocked before the load (complements: KF-C14-1, KF-C14-2)
+// @assume receiver CPU not halted / no EI pending / no prefix pending before the load (that region: c14_sna_into_busy_cpu)
 // @outside RAM offsets outside the witness class (page transfers are whole-slice copies); display refresh
 // @stub ZXController::refresh_memory_dependent_devices -> no-op; ZXScreen::process_clocks -> no-op (display is C08's subject)
 // @replay solver-only
@@ -1504,7 +1529,7 @@ fn c14_sna48_load_p0_1aff() {
 // @sym all 27 header bytes through the spec encoder (every register, IFF2, IM 0..2, border 0..7, undefined bits of byte 19), witness RAM value, receiver registers/border/PC/IFF1, receiver's byte at the witness address
 // @assert load returns Ok; every SNA item equals the encoded abstract state (SP advanced by the PC pop), IFF1 = IFF2, PC = the word at SP when SP,SP+1 are RAM, RAM witness = file byte, CPU neither halted nor EI-pending
 // @bound one load; 48K; witness page 1 offset 0; SP Some(0x8000); everything else symbolic
-// @assume receiver CPU not halted / no EI pending / no prefix pending and (128K) paging unlocked before the load (complements: KF-C14-1, KF-C14-2)
+// @assume receiver CPU not halted / no EI pending / no prefix pending before the load (that region: c14_sna_into_busy_cpu)
 // @outside RAM offsets outside the witness class (page transfers are whole-slice copies); display refresh
 // @stub ZXController::refresh_memory_dependent_devices -> no-op; ZXScreen::process_clocks -> no-op (display is C08's subject)
 // @replay solver-only
@@ -1524,7 +1549,7 @@ fn c14_sna48_load_p1_first() {
 // @sym all 27 header bytes through the spec encoder (every register, IFF2, IM 0..2, border 0..7, undefined bits of byte 19), witness RAM value, receiver registers/border/PC/IFF1, receiver's byte at the witness address
 // @assert load returns Ok; every SNA item equals the encoded abstract state (SP advanced by the PC pop), IFF1 = IFF2, PC = the word at SP when SP,SP+1 are RAM, RAM witness = file byte, CPU neither halted nor EI-pending
 // @bound one load; 48K; witness page 2 offset 0; SP Some(0xFFFF); everything else symbolic
-// @assume receiver CPU not halted / no EI pending / no prefix pending and (128K) paging unlocked before the load (complements: KF-C14-1, KF-C14-2)
+// @assume receiver CPU not halted / no EI pending / no prefix pending before the load (that region: c14_sna_into_busy_cpu)
 // @outside RAM offsets outside the witness class (page transfers are whole-slice copies); display refresh
 // @stub ZXController::refresh_memory_dependent_devices -> no-op; ZXScreen::process_clocks -> no-op (display is C08's subject)
 // @replay solver-only
@@ -1544,7 +1569,7 @@ fn c14_sna48_load_p2_first_spffff() {
 // @sym all 27 header bytes through the spec encoder, PC, TR-DOS flag byte, witness RAM value, receiver registers/border/PC/IFF1 and its byte in the witness bank; 7FFD byte concrete per query
 // @assert load returns Ok; every SNA item equals the abstract state, IFF1 = IFF2, PC = file PC, 7FFD latch/lock/map at 0000,4000,8000,C000/screen bank as the port byte says, RAM witness lands in the bank the layout assigns (also through the CPU map when paged), CPU neither halted nor EI-pending
 // @bound one load, 128K; witness bank 0 offset 0x3FFF; file 7FFD = 0x00|3, receiver 7FFD before = 0x06 (concrete; symbolic port byte -> CBMC out of memory)
-// @assume receiver CPU not halted / no EI pending / no prefix pending and (128K) paging unlocked before the load (complements: KF-C14-1, KF-C14-2)
+// @assume receiver CPU not halted / no EI pending / no prefix pending before the load (that region: c14_sna_into_busy_cpu)
 // @outside RAM offsets outside the witness class (page transfers are whole-slice copies); display refresh; 7FFD values not enumerated
 // @stub ZXController::refresh_memory_dependent_devices -> no-op; ZXScreen::process_clocks -> no-op (display is C08's subject)
 // @replay solver-only
@@ -1563,8 +1588,8 @@ fn c14_sna128_load_bank0_paged3() {
 // @fn sna::load; LoadableAsset::read_exact; Z80::pop_pc_from_stack; Z80::set_im; ZXColor::from_bits; ZXController::set_border_color; ZXController::write_7ffd; ZXMemory::ram_page_data_mut; Regs setters
 // @sym all 27 header bytes through the spec encoder, PC, TR-DOS flag byte, witness RAM value, receiver registers/border/PC/IFF1 and its byte in the witness bank; 7FFD byte concrete per query
 // @assert load returns Ok; every SNA item equals the abstract state, IFF1 = IFF2, PC = file PC, 7FFD latch/lock/map at 0000,4000,8000,C000/screen bank as the port byte says, RAM witness lands in the bank the layout assigns (also through the CPU map when paged), CPU neither halted nor EI-pending
-// @bound one load, 128K; witness bank 1 offset 0; file 7FFD = 0x38|1, receiver 7FFD before = 0x17 (concrete; symbolic port byte -> CBMC out of memory)
-// @assume receiver CPU not halted / no EI pending / no prefix pending and (128K) paging unlocked before the load (complements: KF-C14-1, KF-C14-2)
+// @bound one load, 128K; witness bank 1 offset 0; file 7FFD = 0x38|1, receiver 7FFD before = 0x37 = paging LOCKED (concrete; symbolic port byte -> CBMC out of memory)
+// @assume receiver CPU not halted / no EI pending / no prefix pending before the load (that region: c14_sna_into_busy_cpu)
 // @outside RAM offsets outside the witness class (page transfers are whole-slice copies); display refresh; 7FFD values not enumerated
 // @stub ZXController::refresh_memory_dependent_devices -> no-op; ZXScreen::process_clocks -> no-op (display is C08's subject)
 // @replay solver-only
@@ -1573,7 +1598,7 @@ fn c14_sna128_load_bank0_paged3() {
 #[kani::stub(ZXController::refresh_memory_dependent_devices, noop_refresh)]
 #[kani::stub(ZXScreen::process_clocks, noop_screen_clocks)]
 fn c14_sna128_load_bank1_paged1() {
-    c14_sna128_body(1, 1, 0, 0x38, 0x17);
+    c14_sna128_body(1, 1, 0, 0x38, 0x37);
 }
 
 // @harness
@@ -1584,7 +1609,7 @@ fn c14_sna128_load_bank1_paged1() {
 // @sym all 27 header bytes through the spec encoder, PC, TR-DOS flag byte, witness RAM value, receiver registers/border/PC/IFF1 and its byte in the witness bank; 7FFD byte concrete per query
 // @assert load returns Ok; every SNA item equals the abstract state, IFF1 = IFF2, PC = file PC, 7FFD latch/lock/map at 0000,4000,8000,C000/screen bank as the port byte says, RAM witness lands in the bank the layout assigns (also through the CPU map when paged), CPU neither halted nor EI-pending
 // @bound one load, 128K; witness bank 2 offset 0x1B00; file 7FFD = 0x10|6, receiver 7FFD before = 0x08 (concrete; symbolic port byte -> CBMC out of memory)
-// @assume receiver CPU not halted / no EI pending / no prefix pending and (128K) paging unlocked before the load (complements: KF-C14-1, KF-C14-2)
+// @assume receiver CPU not halted / no EI pending / no prefix pending before the load (that region: c14_sna_into_busy_cpu)
 // @outside RAM offsets outside the witness class (page transfers are whole-slice copies); display refresh; 7FFD values not enumerated
 // @stub ZXController::refresh_memory_dependent_devices -> no-op; ZXScreen::process_clocks -> no-op (display is C08's subject)
 // @replay solver-only
@@ -1603,8 +1628,8 @@ fn c14_sna128_load_bank2_paged6() {
 // @fn sna::load; LoadableAsset::read_exact; Z80::pop_pc_from_stack; Z80::set_im; ZXColor::from_bits; ZXController::set_border_color; ZXController::write_7ffd; ZXMemory::ram_page_data_mut; Regs setters
 // @sym all 27 header bytes through the spec encoder, PC, TR-DOS flag byte, witness RAM value, receiver registers/border/PC/IFF1 and its byte in the witness bank; 7FFD byte concrete per query
 // @assert load returns Ok; every SNA item equals the abstract state, IFF1 = IFF2, PC = file PC, 7FFD latch/lock/map at 0000,4000,8000,C000/screen bank as the port byte says, RAM witness lands in the bank the layout assigns (also through the CPU map when paged), CPU neither halted nor EI-pending
-// @bound one load, 128K; witness bank 3 offset 1; file 7FFD = 0x28|3, receiver 7FFD before = 0x1F (concrete; symbolic port byte -> CBMC out of memory)
-// @assume receiver CPU not halted / no EI pending / no prefix pending and (128K) paging unlocked before the load (complements: KF-C14-1, KF-C14-2)
+// @bound one load, 128K; witness bank 3 offset 1; file 7FFD = 0x28|3, receiver 7FFD before = 0x3F = paging LOCKED (concrete; symbolic port byte -> CBMC out of memory)
+// @assume receiver CPU not halted / no EI pending / no prefix pending before the load (that region: c14_sna_into_busy_cpu)
 // @outside RAM offsets outside the witness class (page transfers are whole-slice copies); display refresh; 7FFD values not enumerated
 // @stub ZXController::refresh_memory_dependent_devices -> no-op; ZXScreen::process_clocks -> no-op (display is C08's subject)
 // @replay solver-only
@@ -1613,7 +1638,7 @@ fn c14_sna128_load_bank2_paged6() {
 #[kani::stub(ZXController::refresh_memory_dependent_devices, noop_refresh)]
 #[kani::stub(ZXScreen::process_clocks, noop_screen_clocks)]
 fn c14_sna128_load_bank3_paged3() {
-    c14_sna128_body(3, 3, 1, 0x28, 0x1F);
+    c14_sna128_body(3, 3, 1, 0x28, 0x3F);
 }
 
 // @harness
@@ -1624,7 +1649,7 @@ fn c14_sna128_load_bank3_paged3() {
 // @sym all 27 header bytes through the spec encoder, PC, TR-DOS flag byte, witness RAM value, receiver registers/border/PC/IFF1 and its byte in the witness bank; 7FFD byte concrete per query
 // @assert load returns Ok; every SNA item equals the abstract state, IFF1 = IFF2, PC = file PC, 7FFD latch/lock/map at 0000,4000,8000,C000/screen bank as the port byte says, RAM witness lands in the bank the layout assigns (also through the CPU map when paged), CPU neither halted nor EI-pending
 // @bound one load, 128K; witness bank 4 offset 0x3FFE; file 7FFD = 0x08|2, receiver 7FFD before = 0x05 (concrete; symbolic port byte -> CBMC out of memory)
-// @assume receiver CPU not halted / no EI pending / no prefix pending and (128K) paging unlocked before the load (complements: KF-C14-1, KF-C14-2)
+// @assume receiver CPU not halted / no EI pending / no prefix pending before the load (that region: c14_sna_into_busy_cpu)
 // @outside RAM offsets outside the witness class (page transfers are whole-slice copies); display refresh; 7FFD values not enumerated
 // @stub ZXController::refresh_memory_dependent_devices -> no-op; ZXScreen::process_clocks -> no-op (display is C08's subject)
 // @replay solver-only
@@ -1643,8 +1668,8 @@ fn c14_sna128_load_bank4_paged2() {
 // @fn sna::load; LoadableAsset::read_exact; Z80::pop_pc_from_stack; Z80::set_im; ZXColor::from_bits; ZXController::set_border_color; ZXController::write_7ffd; ZXMemory::ram_page_data_mut; Regs setters
 // @sym all 27 header bytes through the spec encoder, PC, TR-DOS flag byte, witness RAM value, receiver registers/border/PC/IFF1 and its byte in the witness bank; 7FFD byte concrete per query
 // @assert load returns Ok; every SNA item equals the abstract state, IFF1 = IFF2, PC = file PC, 7FFD latch/lock/map at 0000,4000,8000,C000/screen bank as the port byte says, RAM witness lands in the bank the layout assigns (also through the CPU map when paged), CPU neither halted nor EI-pending
-// @bound one load, 128K; witness bank 5 offset 0; file 7FFD = 0x30|0, receiver 7FFD before = 0x02 (concrete; symbolic port byte -> CBMC out of memory)
-// @assume receiver CPU not halted / no EI pending / no prefix pending and (128K) paging unlocked before the load (complements: KF-C14-1, KF-C14-2)
+// @bound one load, 128K; witness bank 5 offset 0; file 7FFD = 0x30|0, receiver 7FFD before = 0x22 = paging LOCKED (concrete; symbolic port byte -> CBMC out of memory)
+// @assume receiver CPU not halted / no EI pending / no prefix pending before the load (that region: c14_sna_into_busy_cpu)
 // @outside RAM offsets outside the witness class (page transfers are whole-slice copies); display refresh; 7FFD values not enumerated
 // @stub ZXController::refresh_memory_dependent_devices -> no-op; ZXScreen::process_clocks -> no-op (display is C08's subject)
 // @replay solver-only
@@ -1653,7 +1678,7 @@ fn c14_sna128_load_bank4_paged2() {
 #[kani::stub(ZXController::refresh_memory_dependent_devices, noop_refresh)]
 #[kani::stub(ZXScreen::process_clocks, noop_screen_clocks)]
 fn c14_sna128_load_bank5_paged0() {
-    c14_sna128_body(5, 0, 0, 0x30, 0x02);
+    c14_sna128_body(5, 0, 0, 0x30, 0x22);
 }
 
 // @harness
@@ -1664,7 +1689,7 @@ fn c14_sna128_load_bank5_paged0() {
 // @sym all 27 header bytes through the spec encoder, PC, TR-DOS flag byte, witness RAM value, receiver registers/border/PC/IFF1 and its byte in the witness bank; 7FFD byte concrete per query
 // @assert load returns Ok; every SNA item equals the abstract state, IFF1 = IFF2, PC = file PC, 7FFD latch/lock/map at 0000,4000,8000,C000/screen bank as the port byte says, RAM witness lands in the bank the layout assigns (also through the CPU map when paged), CPU neither halted nor EI-pending
 // @bound one load, 128K; witness bank 6 offset 0x1AFF; file 7FFD = 0xC8|4, receiver 7FFD before = 0x00 (concrete; symbolic port byte -> CBMC out of memory)
-// @assume receiver CPU not halted / no EI pending / no prefix pending and (128K) paging unlocked before the load (complements: KF-C14-1, KF-C14-2)
+// @assume receiver CPU not halted / no EI pending / no prefix pending before the load (that region: c14_sna_into_busy_cpu)
 // @outside RAM offsets outside the witness class (page transfers are whole-slice copies); display refresh; 7FFD values not enumerated
 // @stub ZXController::refresh_memory_dependent_devices -> no-op; ZXScreen::process_clocks -> no-op (display is C08's subject)
 // @replay solver-only
@@ -1683,8 +1708,8 @@ fn c14_sna128_load_bank6_paged4() {
 // @fn sna::load; LoadableAsset::read_exact; Z80::pop_pc_from_stack; Z80::set_im; ZXColor::from_bits; ZXController::set_border_color; ZXController::write_7ffd; ZXMemory::ram_page_data_mut; Regs setters
 // @sym all 27 header bytes through the spec encoder, PC, TR-DOS flag byte, witness RAM value, receiver registers/border/PC/IFF1 and its byte in the witness bank; 7FFD byte concrete per query
 // @assert load returns Ok; every SNA item equals the abstract state, IFF1 = IFF2, PC = file PC, 7FFD latch/lock/map at 0000,4000,8000,C000/screen bank as the port byte says, RAM witness lands in the bank the layout assigns (also through the CPU map when paged), CPU neither halted nor EI-pending
-// @bound one load, 128K; witness bank 7 offset 0x3FFF; file 7FFD = 0x18|5, receiver 7FFD before = 0x11 (concrete; symbolic port byte -> CBMC out of memory)
-// @assume receiver CPU not halted / no EI pending / no prefix pending and (128K) paging unlocked before the load (complements: KF-C14-1, KF-C14-2)
+// @bound one load, 128K; witness bank 7 offset 0x3FFF; file 7FFD = 0x18|5, receiver 7FFD before = 0x31 = paging LOCKED (concrete; symbolic port byte -> CBMC out of memory)
+// @assume receiver CPU not halted / no EI pending / no prefix pending before the load (that region: c14_sna_into_busy_cpu)
 // @outside RAM offsets outside the witness class (page transfers are whole-slice copies); display refresh; 7FFD values not enumerated
 // @stub ZXController::refresh_memory_dependent_devices -> no-op; ZXScreen::process_clocks -> no-op (display is C08's subject)
 // @replay solver-only
@@ -1693,7 +1718,7 @@ fn c14_sna128_load_bank6_paged4() {
 #[kani::stub(ZXController::refresh_memory_dependent_devices, noop_refresh)]
 #[kani::stub(ZXScreen::process_clocks, noop_screen_clocks)]
 fn c14_sna128_load_bank7_paged5() {
-    c14_sna128_body(7, 5, 0x3FFF, 0x18, 0x11);
+    c14_sna128_body(7, 5, 0x3FFF, 0x18, 0x31);
 }
 
 // @harness
@@ -1704,7 +1729,7 @@ fn c14_sna128_load_bank7_paged5() {
 // @sym all 27 header bytes through the spec encoder, PC, TR-DOS flag byte, witness RAM value, receiver registers/border/PC/IFF1 and its byte in the witness bank; 7FFD byte concrete per query
 // @assert load returns Ok; every SNA item equals the abstract state, IFF1 = IFF2, PC = file PC, 7FFD latch/lock/map at 0000,4000,8000,C000/screen bank as the port byte says, RAM witness lands in the bank the layout assigns (also through the CPU map when paged), CPU neither halted nor EI-pending
 // @bound 8 loads, 128K; witness bank 0 offset 0x3FFF; every paged bank with rotating high 7FFD bits
-// @assume receiver CPU not halted / no EI pending / no prefix pending and (128K) paging unlocked before the load (complements: KF-C14-1, KF-C14-2)
+// @assume receiver CPU not halted / no EI pending / no prefix pending before the load (that region: c14_sna_into_busy_cpu)
 // @outside RAM offsets outside the witness class (page transfers are whole-slice copies); display refresh; 7FFD values not enumerated
 // @stub ZXController::refresh_memory_dependent_devices -> no-op; ZXScreen::process_clocks -> no-op (display is C08's subject)
 // @replay solver-only
@@ -1716,7 +1741,7 @@ fn c14_sna128_load_bank0_all_paged() {
     let his: [u8; 8] = [0x00, 0x08, 0x10, 0x20, 0x38, 0xC0, 0x28, 0x18];
     let mut paged = 0u8;
     while paged < 8 {
-        c14_sna128_body(0, paged, 0x3FFF, his[((paged + 1) & 7) as usize], his[((paged + 4) & 7) as usize] & 0x1F | ((paged + 5) & 7));
+        c14_sna128_body(0, paged, 0x3FFF, his[((paged + 1) & 7) as usize], his[((paged + 4) & 7) as usize] & 0x1F | ((paged + 5) & 7) | ((paged & 1) << 5));
         paged += 1;
     }
 }
@@ -1729,7 +1754,7 @@ fn c14_sna128_load_bank0_all_paged() {
 // @sym all 27 header bytes through the spec encoder, PC, TR-DOS flag byte, witness RAM value, receiver registers/border/PC/IFF1 and its byte in the witness bank; 7FFD byte concrete per query
 // @assert load returns Ok; every SNA item equals the abstract state, IFF1 = IFF2, PC = file PC, 7FFD latch/lock/map at 0000,4000,8000,C000/screen bank as the port byte says, RAM witness lands in the bank the layout assigns (also through the CPU map when paged), CPU neither halted nor EI-pending
 // @bound 8 loads, 128K; witness bank 1 offset 0; every paged bank with rotating high 7FFD bits
-// @assume receiver CPU not halted / no EI pending / no prefix pending and (128K) paging unlocked before the load (complements: KF-C14-1, KF-C14-2)
+// @assume receiver CPU not halted / no EI pending / no prefix pending before the load (that region: c14_sna_into_busy_cpu)
 // @outside RAM offsets outside the witness class (page transfers are whole-slice copies); display refresh; 7FFD values not enumerated
 // @stub ZXController::refresh_memory_dependent_devices -> no-op; ZXScreen::process_clocks -> no-op (display is C08's subject)
 // @replay solver-only
@@ -1741,7 +1766,7 @@ fn c14_sna128_load_bank1_all_paged() {
     let his: [u8; 8] = [0x00, 0x08, 0x10, 0x20, 0x38, 0xC0, 0x28, 0x18];
     let mut paged = 0u8;
     while paged < 8 {
-        c14_sna128_body(1, paged, 0, his[((paged + 2) & 7) as usize], his[((paged + 5) & 7) as usize] & 0x1F | ((paged + 5) & 7));
+        c14_sna128_body(1, paged, 0, his[((paged + 2) & 7) as usize], his[((paged + 5) & 7) as usize] & 0x1F | ((paged + 5) & 7) | ((paged & 1) << 5));
         paged += 1;
     }
 }
@@ -1754,7 +1779,7 @@ fn c14_sna128_load_bank1_all_paged() {
 // @sym all 27 header bytes through the spec encoder, PC, TR-DOS flag byte, witness RAM value, receiver registers/border/PC/IFF1 and its byte in the witness bank; 7FFD byte concrete per query
 // @assert load returns Ok; every SNA item equals the abstract state, IFF1 = IFF2, PC = file PC, 7FFD latch/lock/map at 0000,4000,8000,C000/screen bank as the port byte says, RAM witness lands in the bank the layout assigns (also through the CPU map when paged), CPU neither halted nor EI-pending
 // @bound 8 loads, 128K; witness bank 2 offset 1; every paged bank with rotating high 7FFD bits
-// @assume receiver CPU not halted / no EI pending / no prefix pending and (128K) paging unlocked before the load (complements: KF-C14-1, KF-C14-2)
+// @assume receiver CPU not halted / no EI pending / no prefix pending before the load (that region: c14_sna_into_busy_cpu)
 // @outside RAM offsets outside the witness class (page transfers are whole-slice copies); display refresh; 7FFD values not enumerated
 // @stub ZXController::refresh_memory_dependent_devices -> no-op; ZXScreen::process_clocks -> no-op (display is C08's subject)
 // @replay solver-only
@@ -1766,7 +1791,7 @@ fn c14_sna128_load_bank2_all_paged() {
     let his: [u8; 8] = [0x00, 0x08, 0x10, 0x20, 0x38, 0xC0, 0x28, 0x18];
     let mut paged = 0u8;
     while paged < 8 {
-        c14_sna128_body(2, paged, 1, his[((paged + 3) & 7) as usize], his[((paged + 6) & 7) as usize] & 0x1F | ((paged + 5) & 7));
+        c14_sna128_body(2, paged, 1, his[((paged + 3) & 7) as usize], his[((paged + 6) & 7) as usize] & 0x1F | ((paged + 5) & 7) | ((paged & 1) << 5));
         paged += 1;
     }
 }
@@ -1779,7 +1804,7 @@ fn c14_sna128_load_bank2_all_paged() {
 // @sym all 27 header bytes through the spec encoder, PC, TR-DOS flag byte, witness RAM value, receiver registers/border/PC/IFF1 and its byte in the witness bank; 7FFD byte concrete per query
 // @assert load returns Ok; every SNA item equals the abstract state, IFF1 = IFF2, PC = file PC, 7FFD latch/lock/map at 0000,4000,8000,C000/screen bank as the port byte says, RAM witness lands in the bank the layout assigns (also through the CPU map when paged), CPU neither halted nor EI-pending
 // @bound 8 loads, 128K; witness bank 3 offset 0x1B00; every paged bank with rotating high 7FFD bits
-// @assume receiver CPU not halted / no EI pending / no prefix pending and (128K) paging unlocked before the load (complements: KF-C14-1, KF-C14-2)
+// @assume receiver CPU not halted / no EI pending / no prefix pending before the load (that region: c14_sna_into_busy_cpu)
 // @outside RAM offsets outside the witness class (page transfers are whole-slice copies); display refresh; 7FFD values not enumerated
 // @stub ZXController::refresh_memory_dependent_devices -> no-op; ZXScreen::process_clocks -> no-op (display is C08's subject)
 // @replay solver-only
@@ -1791,7 +1816,7 @@ fn c14_sna128_load_bank3_all_paged() {
     let his: [u8; 8] = [0x00, 0x08, 0x10, 0x20, 0x38, 0xC0, 0x28, 0x18];
     let mut paged = 0u8;
     while paged < 8 {
-        c14_sna128_body(3, paged, 0x1B00, his[((paged + 4) & 7) as usize], his[((paged + 7) & 7) as usize] & 0x1F | ((paged + 5) & 7));
+        c14_sna128_body(3, paged, 0x1B00, his[((paged + 4) & 7) as usize], his[((paged + 7) & 7) as usize] & 0x1F | ((paged + 5) & 7) | ((paged & 1) << 5));
         paged += 1;
     }
 }
@@ -1804,7 +1829,7 @@ fn c14_sna128_load_bank3_all_paged() {
 // @sym all 27 header bytes through the spec encoder, PC, TR-DOS flag byte, witness RAM value, receiver registers/border/PC/IFF1 and its byte in the witness bank; 7FFD byte concrete per query
 // @assert load returns Ok; every SNA item equals the abstract state, IFF1 = IFF2, PC = file PC, 7FFD latch/lock/map at 0000,4000,8000,C000/screen bank as the port byte says, RAM witness lands in the bank the layout assigns (also through the CPU map when paged), CPU neither halted nor EI-pending
 // @bound 8 loads, 128K; witness bank 4 offset 0x1AFF; every paged bank with rotating high 7FFD bits
-// @assume receiver CPU not halted / no EI pending / no prefix pending and (128K) paging unlocked before the load (complements: KF-C14-1, KF-C14-2)
+// @assume receiver CPU not halted / no EI pending / no prefix pending before the load (that region: c14_sna_into_busy_cpu)
 // @outside RAM offsets outside the witness class (page transfers are whole-slice copies); display refresh; 7FFD values not enumerated
 // @stub ZXController::refresh_memory_dependent_devices -> no-op; ZXScreen::process_clocks -> no-op (display is C08's subject)
 // @replay solver-only
@@ -1816,7 +1841,7 @@ fn c14_sna128_load_bank4_all_paged() {
     let his: [u8; 8] = [0x00, 0x08, 0x10, 0x20, 0x38, 0xC0, 0x28, 0x18];
     let mut paged = 0u8;
     while paged < 8 {
-        c14_sna128_body(4, paged, 0x1AFF, his[((paged + 5) & 7) as usize], his[((paged + 8) & 7) as usize] & 0x1F | ((paged + 5) & 7));
+        c14_sna128_body(4, paged, 0x1AFF, his[((paged + 5) & 7) as usize], his[((paged + 8) & 7) as usize] & 0x1F | ((paged + 5) & 7) | ((paged & 1) << 5));
         paged += 1;
     }
 }
@@ -1829,7 +1854,7 @@ fn c14_sna128_load_bank4_all_paged() {
 // @sym all 27 header bytes through the spec encoder, PC, TR-DOS flag byte, witness RAM value, receiver registers/border/PC/IFF1 and its byte in the witness bank; 7FFD byte concrete per query
 // @assert load returns Ok; every SNA item equals the abstract state, IFF1 = IFF2, PC = file PC, 7FFD latch/lock/map at 0000,4000,8000,C000/screen bank as the port byte says, RAM witness lands in the bank the layout assigns (also through the CPU map when paged), CPU neither halted nor EI-pending
 // @bound 8 loads, 128K; witness bank 5 offset 0x3FFE; every paged bank with rotating high 7FFD bits
-// @assume receiver CPU not halted / no EI pending / no prefix pending and (128K) paging unlocked before the load (complements: KF-C14-1, KF-C14-2)
+// @assume receiver CPU not halted / no EI pending / no prefix pending before the load (that region: c14_sna_into_busy_cpu)
 // @outside RAM offsets outside the witness class (page transfers are whole-slice copies); display refresh; 7FFD values not enumerated
 // @stub ZXController::refresh_memory_dependent_devices -> no-op; ZXScreen::process_clocks -> no-op (display is C08's subject)
 // @replay solver-only
@@ -1841,7 +1866,7 @@ fn c14_sna128_load_bank5_all_paged() {
     let his: [u8; 8] = [0x00, 0x08, 0x10, 0x20, 0x38, 0xC0, 0x28, 0x18];
     let mut paged = 0u8;
     while paged < 8 {
-        c14_sna128_body(5, paged, 0x3FFE, his[((paged + 6) & 7) as usize], his[((paged + 9) & 7) as usize] & 0x1F | ((paged + 5) & 7));
+        c14_sna128_body(5, paged, 0x3FFE, his[((paged + 6) & 7) as usize], his[((paged + 9) & 7) as usize] & 0x1F | ((paged + 5) & 7) | ((paged & 1) << 5));
         paged += 1;
     }
 }
@@ -1854,7 +1879,7 @@ fn c14_sna128_load_bank5_all_paged() {
 // @sym all 27 header bytes through the spec encoder, PC, TR-DOS flag byte, witness RAM value, receiver registers/border/PC/IFF1 and its byte in the witness bank; 7FFD byte concrete per query
 // @assert load returns Ok; every SNA item equals the abstract state, IFF1 = IFF2, PC = file PC, 7FFD latch/lock/map at 0000,4000,8000,C000/screen bank as the port byte says, RAM witness lands in the bank the layout assigns (also through the CPU map when paged), CPU neither halted nor EI-pending
 // @bound 8 loads, 128K; witness bank 6 offset 0; every paged bank with rotating high 7FFD bits
-// @assume receiver CPU not halted / no EI pending / no prefix pending and (128K) paging unlocked before the load (complements: KF-C14-1, KF-C14-2)
+// @assume receiver CPU not halted / no EI pending / no prefix pending before the load (that region: c14_sna_into_busy_cpu)
 // @outside RAM offsets outside the witness class (page transfers are whole-slice copies); display refresh; 7FFD values not enumerated
 // @stub ZXController::refresh_memory_dependent_devices -> no-op; ZXScreen::process_clocks -> no-op (display is C08's subject)
 // @replay solver-only
@@ -1866,7 +1891,7 @@ fn c14_sna128_load_bank6_all_paged() {
     let his: [u8; 8] = [0x00, 0x08, 0x10, 0x20, 0x38, 0xC0, 0x28, 0x18];
     let mut paged = 0u8;
     while paged < 8 {
-        c14_sna128_body(6, paged, 0, his[((paged + 7) & 7) as usize], his[((paged + 10) & 7) as usize] & 0x1F | ((paged + 5) & 7));
+        c14_sna128_body(6, paged, 0, his[((paged + 7) & 7) as usize], his[((paged + 10) & 7) as usize] & 0x1F | ((paged + 5) & 7) | ((paged & 1) << 5));
         paged += 1;
     }
 }
@@ -1879,7 +1904,7 @@ fn c14_sna128_load_bank6_all_paged() {
 // @sym all 27 header bytes through the spec encoder, PC, TR-DOS flag byte, witness RAM value, receiver registers/border/PC/IFF1 and its byte in the witness bank; 7FFD byte concrete per query
 // @assert load returns Ok; every SNA item equals the abstract state, IFF1 = IFF2, PC = file PC, 7FFD latch/lock/map at 0000,4000,8000,C000/screen bank as the port byte says, RAM witness lands in the bank the layout assigns (also through the CPU map when paged), CPU neither halted nor EI-pending
 // @bound 8 loads, 128K; witness bank 7 offset 0x3FFF; every paged bank with rotating high 7FFD bits
-// @assume receiver CPU not halted / no EI pending / no prefix pending and (128K) paging unlocked before the load (complements: KF-C14-1, KF-C14-2)
+// @assume receiver CPU not halted / no EI pending / no prefix pending before the load (that region: c14_sna_into_busy_cpu)
 // @outside RAM offsets outside the witness class (page transfers are whole-slice copies); display refresh; 7FFD values not enumerated
 // @stub ZXController::refresh_memory_dependent_devices -> no-op; ZXScreen::process_clocks -> no-op (display is C08's subject)
 // @replay solver-only
@@ -1891,92 +1916,152 @@ fn c14_sna128_load_bank7_all_paged() {
     let his: [u8; 8] = [0x00, 0x08, 0x10, 0x20, 0x38, 0xC0, 0x28, 0x18];
     let mut paged = 0u8;
     while paged < 8 {
-        c14_sna128_body(7, paged, 0x3FFF, his[((paged + 8) & 7) as usize], his[((paged + 11) & 7) as usize] & 0x1F | ((paged + 5) & 7));
+        c14_sna128_body(7, paged, 0x3FFF, his[((paged + 8) & 7) as usize], his[((paged + 11) & 7) as usize] & 0x1F | ((paged + 5) & 7) | ((paged & 1) << 5));
         paged += 1;
     }
 }
 
 // ================================================================================================
-// Known findings (expected to FAIL on the unchanged tree) -- each is the excluded region of the
-// main harnesses above, and nothing else.
+// Regions that were known findings KF-C13-1..5, KF-C14-1..3, KF-C15-1..2 before the fix commits
+// 5a7bee8..a0baa7b; they must hold now.
 // ================================================================================================
 
 // @harness
 // @prop C13
 // @tier quick
 // @timeout 600
-// @expect known:KF-C13-1
 // @fn sna::save; Regs::get_h_alt; Regs::get_l_alt; sna::load
 // @sym every register of a 128K saver, restricted to HL' != HL
-// @assert after save -> load the receiver's HL' equals the saver's HL'
+// @assert after save -> load the receiver's HL' equals the saver's HL' (was KF-C13-1)
 // @bound 1 save + 1 load, 128K, 7FFD 0x00, no RAM witness
+// @assume HL' != HL (sub-region of the c13_rt* harnesses, kept as a focused regression witness)
 // @stub ZXController::refresh_memory_dependent_devices -> no-op; ZXScreen::process_clocks -> no-op
-// @assume HL' != HL (the region excluded from the c13_rt* harnesses)
 // @replay solver-only
 #[kani::proof]
 #[kani::unwind(29)]
 #[kani::stub(ZXController::refresh_memory_dependent_devices, noop_refresh)]
 #[kani::stub(ZXScreen::process_clocks, noop_screen_clocks)]
-fn c13_known_hl_alt_not_saved() {
+fn c13_rt128_hl_alt_differs_from_hl() {
     let a = any_abs();
     kani::assume(a.hl_alt != a.hl);
     let mut s = mk_emulator(ZXMachine::Sinclair128K, CTX);
     set_abs(&mut s, &a);
     let mut rec = SparseRecorder::new(NO_WITNESS);
     let r = save(&mut s, &mut rec);
-    kani::assert(r.is_ok(), "c13.known.hl_alt.save_ok");
+    kani::assert(r.is_ok(), "c13.hl_alt.save_ok");
     let asset = SparseAsset::new(rec.len, rec.head, rec.tail, NO_WITNESS, 0);
     let mut b = receiver(ZXMachine::Sinclair128K, false, 0);
     let r = load(&mut b, asset);
-    kani::assert(r.is_ok(), "c13.known.hl_alt.load_ok");
+    kani::assert(r.is_ok(), "c13.hl_alt.load_ok");
     let got = read_abs(&mut b);
     kani::assert(got.hl_alt == a.hl_alt, "c13.rt128.hl_alt");
-    kani::cover!(true, "reached");
+    kani::cover!(a.hl_alt == 0x1234 && a.hl == 0x4321, "reached with distinct HL and HL'");
 }
 
 // @harness
 // @prop C13
 // @tier quick
 // @timeout 600
-// @expect known:KF-C13-2
-// @fn sna::save; ScopedSnapshotState::enter; ScopedSnapshotState::drop; Z80::push_pc_to_stack
-// @sym every register and PC of a 48K saver; RAM byte just below SP
-// @assert the running machine's RAM byte at SP-1 is unchanged by save_snapshot
+// @fn sna::save; ScopedSnapshotState::enter; ScopedSnapshotState::drop
+// @sym every register, PC, frame clock of a 48K saver; the RAM byte just below SP
+// @assert save_snapshot leaves registers, PC, SP, frame clock and the RAM byte at SP-1 of the running machine unchanged (was KF-C13-2)
 // @bound 1 save, 48K, SP = 0x8101 (concrete), witness address 0x8100
 // @stub ZXController::refresh_memory_dependent_devices -> no-op; ZXScreen::process_clocks -> no-op
-// @assume witness = SP-1 (the region excluded from the c13_rt48* harnesses)
 // @replay solver-only
 #[kani::proof]
 #[kani::unwind(29)]
 #[kani::stub(ZXController::refresh_memory_dependent_devices, noop_refresh)]
 #[kani::stub(ZXScreen::process_clocks, noop_screen_clocks)]
-fn c13_known_save48_overwrites_below_sp() {
-    let _ = c13_save48(1, 0x100, SpMode::PcHi, true, true);
-    kani::cover!(true, "reached");
+fn c13_save48_keeps_byte_below_sp() {
+    let sv = c13_save48(1, 0x100, SpMode::PcHi, true);
+    kani::assert(sv.rec.wval == (sv.pc >> 8) as u8, "c13.save48.file_holds_pc_high_below_sp");
+    kani::cover!(sv.wv != (sv.pc >> 8) as u8, "the byte below SP differs from what the file holds there");
 }
 
 // @harness
 // @prop C13
 // @tier quick
 // @timeout 600
-// @expect known:KF-C13-3
-// @fn sna::save; ScopedSnapshotState::enter; ScopedSnapshotState::drop; Z80::push_pc_to_stack; Z80::pop_pc_from_stack
-// @sym every register and PC of a 48K saver
-// @assert the running machine's PC (and all other registers) are unchanged by save_snapshot
-// @bound 1 save, 48K, SP = 0x2000 (stack in ROM: outside the statement's round-trip proviso, inside its "saving leaves the running machine unchanged" sentence)
+// @fn sna::save; ScopedSnapshotState::enter; ScopedSnapshotState::drop
+// @sym every register, PC, frame clock of a 48K saver
+// @assert save_snapshot leaves PC (and everything else) of the running machine unchanged even when the two bytes below SP are ROM (was KF-C13-3)
+// @bound 1 save, 48K, SP = 0x2000
+// @outside what the file then contains (the 48K format cannot carry PC when the stack is in ROM: the statement's proviso)
 // @stub ZXController::refresh_memory_dependent_devices -> no-op; ZXScreen::process_clocks -> no-op
-// @assume the two bytes below SP are ROM (the region excluded from the c13_rt48* harnesses by the proviso)
 // @replay solver-only
 #[kani::proof]
 #[kani::unwind(29)]
 #[kani::stub(ZXController::refresh_memory_dependent_devices, noop_refresh)]
 #[kani::stub(ZXScreen::process_clocks, noop_screen_clocks)]
-fn c13_known_save48_rom_stack_corrupts_pc() {
-    let _ = c13_save48(1, 0x100, SpMode::At(0x2000), true, false);
-    kani::cover!(true, "reached");
+fn c13_save48_rom_stack_keeps_pc() {
+    let sv = c13_save48(1, 0x100, SpMode::At(0x2000), false);
+    kani::cover!(sv.pc == 0xBEEF, "reached");
 }
 
-fn ctl_leak_body(e: &mut Emulator<VHost>) {
+/// SP class for the side-effect sweep: (SP, witness page, witness offset); the witness is one of the
+/// two bytes below SP whenever that byte is RAM
+const SAVE48_SP_CLASS: [(u16, u8, usize); 9] = [
+    (0x0000, 2, 0x3FFF), // bytes FFFE/FFFF (wrap)
+    (0x0001, 2, 0x3FFF), // FFFF and 0000: RAM + ROM
+    (0x0002, 0, 0x0000), // 0000/0001: both ROM, witness elsewhere
+    (0x2000, 1, 0x1234), // deep in ROM
+    (0x4000, 0, 0x1B00), // 3FFE/3FFF: ROM just below RAM
+    (0x4001, 0, 0x0000), // 3FFF ROM + 4000 RAM (witness)
+    (0x4002, 0, 0x0001), // first two RAM bytes, witness = SP-1
+    (0x8001, 0, 0x3FFF), // page crossing 7FFF/8000, witness = SP-2
+    (0xFFFF, 2, 0x3FFE), // FFFD/FFFE, witness = SP-1
+];
+
+// @harness
+// @prop C13
+// @tier quick
+// @timeout 900
+// @fn sna::save; ScopedSnapshotState::enter; ScopedSnapshotState::drop
+// @sym every register, PC, IFF1, frame clock, witness RAM value; SP enumerated over 9 class members covering wrap-around, ROM, ROM/RAM boundary, page crossing
+// @assert "taking the snapshot leaves the running machine's registers and memory unchanged": all registers, PC, SP, IFF1, control flags, frame clock and the witness RAM byte (one of the two bytes below SP whenever it is RAM) are as before
+// @bound 9 saves, 48K
+// @outside symbolic SP (symbolic RAM stores do not finish under CBMC); RAM bytes other than the witness
+// @stub ZXController::refresh_memory_dependent_devices -> no-op; ZXScreen::process_clocks -> no-op
+// @replay solver-only
+#[kani::proof]
+#[kani::unwind(29)]
+#[kani::stub(ZXController::refresh_memory_dependent_devices, noop_refresh)]
+#[kani::stub(ZXScreen::process_clocks, noop_screen_clocks)]
+fn c13_save48_side_effect_free_sp_class() {
+    let mut i = 0;
+    while i < 9 {
+        let (sp, page, off) = SAVE48_SP_CLASS[i];
+        let _ = c13_save48(page, off, SpMode::At(sp), false);
+        i += 1;
+    }
+    kani::cover!(true, "all nine stack positions done");
+}
+
+// @harness
+// @prop C13
+// @tier quick
+// @timeout 900
+// @fn sna::save; ScopedSnapshotState::enter; ScopedSnapshotState::drop (on the error path); DataRecorder::write_all
+// @sym every register, PC, IFF1, frame clock, witness RAM value (the byte at SP-1); recorder failing with Err or Ok(0) at write call 0 (header), 1, 2, 3 (pages)
+// @assert when the recorder refuses data the save returns Err and the running machine is still unchanged: registers, PC, SP, frame clock and the RAM byte below SP (the early return must still undo the PC placement)
+// @bound 8 failing saves, 48K, SP = 0x8101
+// @stub ZXController::refresh_memory_dependent_devices -> no-op; ZXScreen::process_clocks -> no-op
+// @replay solver-only
+#[kani::proof]
+#[kani::unwind(29)]
+#[kani::stub(ZXController::refresh_memory_dependent_devices, noop_refresh)]
+#[kani::stub(ZXScreen::process_clocks, noop_screen_clocks)]
+fn c13_save48_failing_recorder_side_effect_free() {
+    let mut k = 0u8;
+    while k < 4 {
+        let _ = c13_save48_rec(1, 0x100, SpMode::PcHi, true, k, 0);
+        let _ = c13_save48_rec(1, 0x100, SpMode::PcHi, true, k, 1);
+        k += 1;
+    }
+    kani::cover!(true, "eight failing saves done");
+}
+
+fn ctl_clean_after_load(e: &mut Emulator<VHost>) {
     let c = cpu(e);
     kani::assert(!c.halted, "c14.sna.not_halted_after_load");
     kani::assert(!c.skip_interrupt, "c14.sna.no_ei_pending_after_load");
@@ -1987,19 +2072,17 @@ fn ctl_leak_body(e: &mut Emulator<VHost>) {
 // @prop C13
 // @tier quick
 // @timeout 600
-// @expect known:KF-C13-4
-// @fn sna::save; sna::load; Z80::emulate (to create and to observe a pending DD prefix)
+// @fn sna::save; sna::load; Z80::reset_control_state; Z80::emulate (to create and to observe a pending DD prefix)
 // @sym saver registers; receiver halted flag, EI-pending flag, pending-DD-prefix (created by really executing DD DD)
-// @assert after save -> load into a machine that was halted / had just executed EI / was between DD and its opcode, the CPU is running, takes interrupts and decodes the next opcode unprefixed
+// @assert after save -> load into a machine that was halted / had just executed EI / was between DD and its opcode, the CPU is running, takes interrupts and decodes the next opcode unprefixed, and the registers are the saver's (was KF-C13-4)
 // @bound 1 save + 1 load, 128K, 7FFD 0x00; one instruction step on a 4-byte bus to observe the prefix
 // @stub ZXController::refresh_memory_dependent_devices -> no-op; ZXScreen::process_clocks -> no-op
-// @assume receiver control state dirty (the region excluded from the c13_rt* harnesses)
 // @replay solver-only
 #[kani::proof]
 #[kani::unwind(29)]
 #[kani::stub(ZXController::refresh_memory_dependent_devices, noop_refresh)]
 #[kani::stub(ZXScreen::process_clocks, noop_screen_clocks)]
-fn c13_known_receiver_cpu_state_survives_load() {
+fn c13_rt128_into_busy_cpu() {
     let a = any_abs();
     let mut s = mk_emulator(ZXMachine::Sinclair128K, CTX);
     set_abs(&mut s, &a);
@@ -2008,8 +2091,10 @@ fn c13_known_receiver_cpu_state_survives_load() {
     let asset = SparseAsset::new(rec.len, rec.head, rec.tail, NO_WITNESS, 0);
     let mut b = receiver(ZXMachine::Sinclair128K, true, 0);
     let r = load(&mut b, asset);
-    kani::assert(r.is_ok(), "c13.known.ctl.load_ok");
-    ctl_leak_body(&mut b);
+    kani::assert(r.is_ok(), "c13.busy.load_ok");
+    let got = read_abs(&mut b);
+    assert_abs_eq!(got, a, "c13.rt128");
+    ctl_clean_after_load(&mut b);
     kani::cover!(true, "reached");
 }
 
@@ -2020,6 +2105,7 @@ fn locked_receiver_body(file_latch: u8, receiver_latch: u8) {
     let paged = file_latch & 7;
     let asset = SparseAsset::new(spec_len128(paged), spec_header(&a, 0), [pcl, pch, file_latch, 0], NO_WITNESS, 0);
     let mut b = receiver(ZXMachine::Sinclair128K, false, receiver_latch);
+    kani::assert(!ch::paging_enabled(controller(&mut b)), "c14.sna128.receiver_was_locked");
     let r = load(&mut b, asset);
     kani::assert(r.is_ok(), "c14.sna128.accepted");
     let cb = controller(&mut b);
@@ -2032,19 +2118,17 @@ fn locked_receiver_body(file_latch: u8, receiver_latch: u8) {
 // @prop C13
 // @tier quick
 // @timeout 600
-// @expect known:KF-C13-5
-// @fn sna::load; ZXController::write_7ffd
+// @fn sna::load; ZXController::restore_7ffd; ZXController::write_7ffd
 // @sym header, PC
-// @assert loading a 128K snapshot (7FFD = 0x03, as sna::save writes it for a machine with bank 3 paged) into a machine whose paging is locked (it wrote 0x21 to 7FFD earlier) restores latch, lock and the bank at C000
+// @assert loading a 128K snapshot (7FFD = 0x03) into a machine whose paging is locked (it wrote 0x21 to 7FFD earlier) restores latch, lock and the bank at C000 (was KF-C13-5)
 // @bound 1 load, 128K, concrete 7FFD values
 // @stub ZXController::refresh_memory_dependent_devices -> no-op; ZXScreen::process_clocks -> no-op
-// @assume receiver paging locked (the region excluded from the c13_rt128* harnesses)
 // @replay solver-only
 #[kani::proof]
 #[kani::unwind(29)]
 #[kani::stub(ZXController::refresh_memory_dependent_devices, noop_refresh)]
 #[kani::stub(ZXScreen::process_clocks, noop_screen_clocks)]
-fn c13_known_locked_receiver_keeps_old_paging() {
+fn c13_load_into_locked_receiver() {
     locked_receiver_body(0x03, 0x21);
     kani::cover!(true, "reached");
 }
@@ -2053,26 +2137,24 @@ fn c13_known_locked_receiver_keeps_old_paging() {
 // @prop C14
 // @tier quick
 // @timeout 600
-// @expect known:KF-C14-1
-// @fn sna::load; Z80::emulate (to create and to observe a pending DD prefix)
+// @fn sna::load; Z80::reset_control_state; Z80::emulate (to create and to observe a pending DD prefix)
 // @sym header through the spec encoder; receiver halted flag, EI-pending flag, pending DD prefix (created by really executing DD DD)
-// @assert after loading a well-formed 48K SNA the CPU is not halted, has no EI pending and decodes the next opcode unprefixed, whatever the receiver was doing
+// @assert after loading a well-formed 48K SNA the CPU is not halted, has no EI pending and decodes the next opcode unprefixed, whatever the receiver was doing (was KF-C14-1)
 // @bound 1 load, 48K, SP 0x8000; one instruction step on a 4-byte bus to observe the prefix
 // @stub ZXController::refresh_memory_dependent_devices -> no-op; ZXScreen::process_clocks -> no-op
-// @assume receiver control state dirty (the region excluded from the c14_sna* harnesses)
 // @replay solver-only
 #[kani::proof]
 #[kani::unwind(29)]
 #[kani::stub(ZXController::refresh_memory_dependent_devices, noop_refresh)]
 #[kani::stub(ZXScreen::process_clocks, noop_screen_clocks)]
-fn c14_known_sna_receiver_cpu_state_survives() {
+fn c14_sna_into_busy_cpu() {
     let mut a = any_abs();
     a.sp = 0x8000;
     let asset = SparseAsset::new(SPEC_SNA48_LEN, spec_header(&a, 0), [0; 4], NO_WITNESS, 0);
     let mut b = receiver(ZXMachine::Sinclair48K, true, 0);
     let r = load(&mut b, asset);
     kani::assert(r.is_ok(), "c14.sna48.accepted");
-    ctl_leak_body(&mut b);
+    ctl_clean_after_load(&mut b);
     kani::cover!(true, "reached");
 }
 
@@ -2080,93 +2162,66 @@ fn c14_known_sna_receiver_cpu_state_survives() {
 // @prop C14
 // @tier quick
 // @timeout 600
-// @expect known:KF-C14-2
-// @fn sna::load; ZXController::write_7ffd
+// @fn sna::load; ZXController::restore_7ffd
 // @sym header, PC
-// @assert a well-formed 128K SNA with port byte 0x14 loaded into a machine with locked paging (7FFD = 0x26 written earlier) yields latch 0x14, paging unlocked, bank 4 at C000
-// @bound 1 load, 128K, concrete 7FFD values
+// @assert a well-formed 128K SNA with port byte 0x14 loaded into a machine with locked paging (7FFD = 0x26 written earlier) yields latch 0x14, paging unlocked, bank 4 at C000; with port byte 0x35 into a machine locked by 0x21: latch 0x35, locked, bank 5 (was KF-C14-2)
+// @bound 2 loads, 128K, concrete 7FFD values
 // @stub ZXController::refresh_memory_dependent_devices -> no-op; ZXScreen::process_clocks -> no-op
-// @assume receiver paging locked (the region excluded from the c14_sna128* harnesses)
 // @replay solver-only
 #[kani::proof]
 #[kani::unwind(29)]
 #[kani::stub(ZXController::refresh_memory_dependent_devices, noop_refresh)]
 #[kani::stub(ZXScreen::process_clocks, noop_screen_clocks)]
-fn c14_known_sna128_into_locked_machine() {
+fn c14_sna128_into_locked_machine() {
     locked_receiver_body(0x14, 0x26);
+    locked_receiver_body(0x35, 0x21);
     kani::cover!(true, "reached");
 }
 
+/// a snapshot of the other model must be refused with MachineNotSupported before the asset is read
+/// and before anything in the machine changes
+fn sna_model_mismatch_body(machine: ZXMachine, size: usize, latch0: u8, bank: u8, off: usize) {
+    let a = any_abs();
+    let mut asset = SparseAsset::new(size, spec_header(&a, kani::any()), [kani::any(), kani::any(), kani::any(), 0], spec_off48(0, 0), kani::any());
+    let mut b = receiver(machine, true, latch0);
+    let wv: u8 = kani::any();
+    set_ram_byte(&mut b, bank, off, wv);
+    let before = read_abs(&mut b);
+    let (pc, iff1) = (cpu(&mut b).regs.get_pc(), cpu(&mut b).regs.get_iff1());
+    let (halted, skip) = (cpu(&mut b).halted, cpu(&mut b).skip_interrupt);
+    let r = load(&mut b, &mut asset);
+    kani::assert(matches!(r, Err(Error::SnapshotLoad(SnapshotLoadError::MachineNotSupported))), "c14.sna.model_mismatch_rejected");
+    kani::assert(asset.max_req == 0, "c14.sna.model_mismatch_nothing_read");
+    let after = read_abs(&mut b);
+    assert_abs_eq!(after, before, "c14.sna.model_mismatch_state_untouched");
+    let c = cpu(&mut b);
+    kani::assert(c.regs.get_pc() == pc && c.regs.get_iff1() == iff1 && c.halted == halted && c.skip_interrupt == skip, "c14.sna.model_mismatch_state_untouched.cpu");
+    kani::assert(ram_byte(&mut b, bank, off) == wv, "c14.sna.model_mismatch_state_untouched.ram");
+    if machine == ZXMachine::Sinclair128K {
+        kani::assert(controller(&mut b).read_7ffd() == latch0, "c14.sna.model_mismatch_state_untouched.latch");
+    }
+}
+
 // @harness
-// @prop C14
+// @prop C14 C15
 // @tier quick
 // @timeout 600
-// @expect known:KF-C14-3
 // @fn sna::load
-// @sym header through the spec encoder
-// @assert a 48K SNA (49179 bytes) offered to a 128K machine is rejected with Err
-// @bound 1 load
+// @sym header through the spec encoder, secondary header bytes, receiver registers / control flags / a RAM byte
+// @assert a 48K SNA (49179 bytes) offered to a 128K machine, and 128K SNAs (131103, 147487, 49180 bytes) offered to a 48K machine, are refused with Err(MachineNotSupported) without a single read request and with registers, PC, control flags, border, 7FFD latch and the RAM witness untouched (was KF-C14-3 / KF-C15-2)
+// @bound 4 loads
 // @stub ZXController::refresh_memory_dependent_devices -> no-op; ZXScreen::process_clocks -> no-op
 // @replay solver-only
 #[kani::proof]
 #[kani::unwind(29)]
 #[kani::stub(ZXController::refresh_memory_dependent_devices, noop_refresh)]
 #[kani::stub(ZXScreen::process_clocks, noop_screen_clocks)]
-fn c14_known_sna48_into_128k_accepted() {
-    let a = any_abs();
-    let asset = SparseAsset::new(SPEC_SNA48_LEN, spec_header(&a, 0), [0; 4], NO_WITNESS, 0);
-    let mut b = receiver(ZXMachine::Sinclair128K, false, 0);
-    let r = load(&mut b, asset);
-    kani::assert(r.is_err(), "c14.sna.model_mismatch_rejected");
-    kani::cover!(true, "reached");
-}
-
-// @harness
-// @prop C15
-// @tier quick
-// @timeout 600
-// @expect known:KF-C15-2
-// @fn sna::load; ZXMemory::ram_page_data_mut
-// @sym header through the spec encoder, PC, port byte
-// @assert a 128K SNA (131103 bytes) offered to a 48K machine is rejected with Err (in particular: no panic)
-// @bound 1 load
-// @stub ZXController::refresh_memory_dependent_devices -> no-op; ZXScreen::process_clocks -> no-op
-// @replay solver-only
-#[kani::proof]
-#[kani::unwind(29)]
-#[kani::stub(ZXController::refresh_memory_dependent_devices, noop_refresh)]
-#[kani::stub(ZXScreen::process_clocks, noop_screen_clocks)]
-fn c15_known_sna128_into_48k_panics() {
-    let a = any_abs();
-    let asset = SparseAsset::new(SPEC_SNA128_LEN, spec_header(&a, 0), [kani::any(), kani::any(), kani::any(), 0], NO_WITNESS, 0);
-    let mut b = receiver(ZXMachine::Sinclair48K, false, 0);
-    let r = load(&mut b, asset);
-    kani::assert(r.is_err(), "c15.sna.model_mismatch_is_err_not_panic");
-    kani::cover!(true, "reached");
-}
-
-// @harness
-// @prop C14
-// @tier quick
-// @timeout 600
-// @expect known:KF-C14-3
-// @fn sna::load; ZXMemory::ram_page_data_mut
-// @sym header through the spec encoder, PC, port byte
-// @assert a 128K SNA (131103 bytes) offered to a 48K machine is rejected with Err
-// @bound 1 load
-// @stub ZXController::refresh_memory_dependent_devices -> no-op; ZXScreen::process_clocks -> no-op
-// @replay solver-only
-#[kani::proof]
-#[kani::unwind(29)]
-#[kani::stub(ZXController::refresh_memory_dependent_devices, noop_refresh)]
-#[kani::stub(ZXScreen::process_clocks, noop_screen_clocks)]
-fn c14_known_sna128_into_48k_not_rejected() {
-    let a = any_abs();
-    let asset = SparseAsset::new(SPEC_SNA128_LEN, spec_header(&a, 0), [kani::any(), kani::any(), kani::any(), 0], NO_WITNESS, 0);
-    let mut b = receiver(ZXMachine::Sinclair48K, false, 0);
-    let r = load(&mut b, asset);
-    kani::assert(r.is_err(), "c14.sna.model_mismatch_rejected");
-    kani::cover!(true, "reached");
+fn c14_sna_other_model_rejected_untouched() {
+    sna_model_mismatch_body(ZXMachine::Sinclair128K, SPEC_SNA48_LEN, 0x13, 0, 0);
+    sna_model_mismatch_body(ZXMachine::Sinclair48K, SPEC_SNA128_LEN, 0, 0, 0);
+    sna_model_mismatch_body(ZXMachine::Sinclair48K, SPEC_SNA128_LEN_DUP, 0, 2, 0x3FFF);
+    sna_model_mismatch_body(ZXMachine::Sinclair48K, SPEC_SNA48_LEN + 1, 0, 1, 0x1B00);
+    kani::cover!(true, "four mismatches refused");
 }
 
 // ================================================================================================
@@ -2196,13 +2251,14 @@ pub(crate) struct Tally {
     pub ok: u8,
     pub err: u8,
     pub fault_err: u8,
+    /// loads refused (correctly) because the header asked for interrupt mode 3
+    pub im3: u8,
 }
 
 /// One `sna::load` of a file of `size` bytes whose 27+4 kept bytes are arbitrary, with the given
 /// (concrete) fault.  `latch` fixes the 128K port byte (see the C14 notes), None = arbitrary.
 fn c15_sna_once(machine: ZXMachine, size: usize, latch: Option<u8>, fault: Fault, t: &mut Tally) {
     let head: [u8; 27] = kani::any();
-    kani::assume(head[25] & 3 != 3);
     let tail: [u8; 4] = [kani::any(), kani::any(), latch.unwrap_or(kani::any()), kani::any()];
     let mut asset = SparseAsset::new(size, head, tail, NO_WITNESS, 0);
     asset.fault = fault;
@@ -2217,6 +2273,11 @@ fn c15_sna_once(machine: ZXMachine, size: usize, latch: Option<u8>, fault: Fault
             kani::assert(r.is_err(), "c15.sna.asset_failure_surfaces_as_err");
         }
     }
+    if head[25] & 3 == 3 {
+        // no interrupt mode 3: refused (was a panic in Z80::set_im, KF-C15-1)
+        kani::assert(r.is_err(), "c15.sna.interrupt_mode_3_is_err");
+        t.im3 += 1;
+    }
     if r.is_ok() {
         t.ok += 1;
     } else {
@@ -2230,7 +2291,7 @@ fn c15_sna_once(machine: ZXMachine, size: usize, latch: Option<u8>, fault: Fault
 /// one load per listed fault `(asset call index, kind)` (kind 0: Err, 1: short read of `short_n`
 /// bytes -- for a seek: Err --, 2: premature Ok(0)), then optionally one fault-free load
 fn c15_sna_list(machine: ZXMachine, size: usize, latch: Option<u8>, faults: &[(u8, u8)], short_n: usize, fault_free: bool) -> Tally {
-    let mut t = Tally { ok: 0, err: 0, fault_err: 0 };
+    let mut t = Tally { ok: 0, err: 0, fault_err: 0, im3: 0 };
     let mut i = 0;
     while i < faults.len() {
         c15_sna_once(machine, size, latch, Fault { at: faults[i].0, kind: faults[i].1, n: short_n }, &mut t);
@@ -2252,9 +2313,8 @@ fn c15_sna_list(machine: ZXMachine, size: usize, latch: Option<u8>, faults: &[(u
 // @timeout 900
 // @fn sna::load; LoadableAsset::read_exact; Z80::set_im; ZXColor::from_bits; ZXController::write_7ffd; ZXMemory::ram_page_data_mut; Z80::pop_pc_from_stack
 // @sym all 27 header bytes and the 4 bytes at 49179 raw (no encoder), fresh per load; fault position and kind enumerated concretely (a symbolic fault makes the file position symbolic and CBMC runs out of memory)
-// @assert no panic / overflow / failed unwrap (Kani checks), every loop terminates within the unwinding bound, asset calls <= 24, largest read request <= 16384 bytes (sna::load allocates nothing), an asset Err/EOF surfaces as Err, memory map afterwards names existing pages
+// @assert no panic / overflow / failed unwrap (Kani checks), every loop terminates within the unwinding bound, asset calls <= 24, largest read request <= 16384 bytes (sna::load allocates nothing), an asset Err/EOF surfaces as Err, interrupt-mode byte with both low bits set gives Err, memory map afterwards names existing pages
 // @bound 48K machine, 49179-byte file; Err at calls 0,1,2; 1-byte short header read; then no fault
-// @assume header byte 25 & 3 != 3 (complement panics: KF-C15-1)
 // @outside RAM page contents (whole-slice copies, sparse asset leaves them untouched); 128K port byte values other than the enumerated ones; emulating whole further frames (C01/C04 show a step cannot panic from any state under the map invariant asserted here)
 // @stub ZXController::refresh_memory_dependent_devices -> no-op; ZXScreen::process_clocks -> no-op
 // @replay solver-only
@@ -2273,9 +2333,8 @@ fn c15_sna48_faults_seek_header() {
 // @timeout 900
 // @fn sna::load; LoadableAsset::read_exact; Z80::set_im; ZXColor::from_bits; ZXController::write_7ffd; ZXMemory::ram_page_data_mut; Z80::pop_pc_from_stack
 // @sym all 27 header bytes and the 4 bytes at 49179 raw (no encoder), fresh per load; fault position and kind enumerated concretely (a symbolic fault makes the file position symbolic and CBMC runs out of memory)
-// @assert no panic / overflow / failed unwrap (Kani checks), every loop terminates within the unwinding bound, asset calls <= 24, largest read request <= 16384 bytes (sna::load allocates nothing), an asset Err/EOF surfaces as Err, memory map afterwards names existing pages
+// @assert no panic / overflow / failed unwrap (Kani checks), every loop terminates within the unwinding bound, asset calls <= 24, largest read request <= 16384 bytes (sna::load allocates nothing), an asset Err/EOF surfaces as Err, interrupt-mode byte with both low bits set gives Err, memory map afterwards names existing pages
 // @bound 48K machine, 49179-byte file; Err at calls 3,4,5; 1-byte short page read at call 4
-// @assume header byte 25 & 3 != 3 (complement panics: KF-C15-1)
 // @outside RAM page contents (whole-slice copies, sparse asset leaves them untouched); 128K port byte values other than the enumerated ones; emulating whole further frames (C01/C04 show a step cannot panic from any state under the map invariant asserted here)
 // @stub ZXController::refresh_memory_dependent_devices -> no-op; ZXScreen::process_clocks -> no-op
 // @replay solver-only
@@ -2294,9 +2353,8 @@ fn c15_sna48_faults_pages() {
 // @timeout 900
 // @fn sna::load; LoadableAsset::read_exact; Z80::set_im; ZXColor::from_bits; ZXController::write_7ffd; ZXMemory::ram_page_data_mut; Z80::pop_pc_from_stack
 // @sym all 27 header bytes and the 4 bytes at 49179 raw (no encoder), fresh per load; fault position and kind enumerated concretely (a symbolic fault makes the file position symbolic and CBMC runs out of memory)
-// @assert no panic / overflow / failed unwrap (Kani checks), every loop terminates within the unwinding bound, asset calls <= 24, largest read request <= 16384 bytes (sna::load allocates nothing), an asset Err/EOF surfaces as Err, memory map afterwards names existing pages
-// @bound 128K machine, 49179-byte file (taken as 48K layout); Err at calls 2 and 5, short read at call 3, then no fault
-// @assume header byte 25 & 3 != 3 (complement panics: KF-C15-1)
+// @assert no panic / overflow / failed unwrap (Kani checks), every loop terminates within the unwinding bound, asset calls <= 24, largest read request <= 16384 bytes (sna::load allocates nothing), an asset Err/EOF surfaces as Err, interrupt-mode byte with both low bits set gives Err, memory map afterwards names existing pages
+// @bound files of the other model under faults: 128K machine with a 49179-byte file, 48K machine with 131103- and 49180-byte files; Err at seek 0, seek 1, then no fault: always Err, never more than the two seeks
 // @outside RAM page contents (whole-slice copies, sparse asset leaves them untouched); 128K port byte values other than the enumerated ones; emulating whole further frames (C01/C04 show a step cannot panic from any state under the map invariant asserted here)
 // @stub ZXController::refresh_memory_dependent_devices -> no-op; ZXScreen::process_clocks -> no-op
 // @replay solver-only
@@ -2304,9 +2362,12 @@ fn c15_sna48_faults_pages() {
 #[kani::unwind(29)]
 #[kani::stub(ZXController::refresh_memory_dependent_devices, noop_refresh)]
 #[kani::stub(ZXScreen::process_clocks, noop_screen_clocks)]
-fn c15_sna128_machine_48k_sized_file() {
-    let t = c15_sna_list(ZXMachine::Sinclair128K, 49179, None, &[(2, 0), (5, 0), (3, 1)], 1, true);
-    kani::cover!(t.ok >= 1 && t.fault_err >= 1, "fault-free load succeeds, injected faults surface as Err");
+fn c15_sna_other_model_file_faults() {
+    let t1 = c15_sna_list(ZXMachine::Sinclair128K, 49179, None, &[(0, 0), (1, 0)], 1, true);
+    let t2 = c15_sna_list(ZXMachine::Sinclair48K, 131103, None, &[(0, 0), (1, 0)], 1, true);
+    let t3 = c15_sna_list(ZXMachine::Sinclair48K, 49180, None, &[(1, 0)], 1, true);
+    kani::assert(t1.ok == 0 && t2.ok == 0 && t3.ok == 0, "c15.sna.other_model_is_err");
+    kani::cover!(t1.err == 3 && t2.fault_err == 2 && t3.err == 2, "all eight loads refused");
 }
 
 // @harness
@@ -2315,9 +2376,8 @@ fn c15_sna128_machine_48k_sized_file() {
 // @timeout 900
 // @fn sna::load; LoadableAsset::read_exact; Z80::set_im; ZXColor::from_bits; ZXController::write_7ffd; ZXMemory::ram_page_data_mut; Z80::pop_pc_from_stack
 // @sym all 27 header bytes and the 4 bytes at 49179 raw (no encoder), fresh per load; fault position and kind enumerated concretely (a symbolic fault makes the file position symbolic and CBMC runs out of memory)
-// @assert no panic / overflow / failed unwrap (Kani checks), every loop terminates within the unwinding bound, asset calls <= 24, largest read request <= 16384 bytes (sna::load allocates nothing), an asset Err/EOF surfaces as Err, memory map afterwards names existing pages
+// @assert no panic / overflow / failed unwrap (Kani checks), every loop terminates within the unwinding bound, asset calls <= 24, largest read request <= 16384 bytes (sna::load allocates nothing), an asset Err/EOF surfaces as Err, interrupt-mode byte with both low bits set gives Err, memory map afterwards names existing pages
 // @bound 128K machine, 131103-byte file, port byte 0x13; Err at calls 0..4, then no fault
-// @assume header byte 25 & 3 != 3 (complement panics: KF-C15-1)
 // @outside RAM page contents (whole-slice copies, sparse asset leaves them untouched); 128K port byte values other than the enumerated ones; emulating whole further frames (C01/C04 show a step cannot panic from any state under the map invariant asserted here)
 // @stub ZXController::refresh_memory_dependent_devices -> no-op; ZXScreen::process_clocks -> no-op
 // @replay solver-only
@@ -2336,9 +2396,8 @@ fn c15_sna128_faults_calls_0_4() {
 // @timeout 900
 // @fn sna::load; LoadableAsset::read_exact; Z80::set_im; ZXColor::from_bits; ZXController::write_7ffd; ZXMemory::ram_page_data_mut; Z80::pop_pc_from_stack
 // @sym all 27 header bytes and the 4 bytes at 49179 raw (no encoder), fresh per load; fault position and kind enumerated concretely (a symbolic fault makes the file position symbolic and CBMC runs out of memory)
-// @assert no panic / overflow / failed unwrap (Kani checks), every loop terminates within the unwinding bound, asset calls <= 24, largest read request <= 16384 bytes (sna::load allocates nothing), an asset Err/EOF surfaces as Err, memory map afterwards names existing pages
+// @assert no panic / overflow / failed unwrap (Kani checks), every loop terminates within the unwinding bound, asset calls <= 24, largest read request <= 16384 bytes (sna::load allocates nothing), an asset Err/EOF surfaces as Err, interrupt-mode byte with both low bits set gives Err, memory map afterwards names existing pages
 // @bound 128K machine, 131103-byte file, port byte 0x2C; Err at calls 5..9
-// @assume header byte 25 & 3 != 3 (complement panics: KF-C15-1)
 // @outside RAM page contents (whole-slice copies, sparse asset leaves them untouched); 128K port byte values other than the enumerated ones; emulating whole further frames (C01/C04 show a step cannot panic from any state under the map invariant asserted here)
 // @stub ZXController::refresh_memory_dependent_devices -> no-op; ZXScreen::process_clocks -> no-op
 // @replay solver-only
@@ -2357,9 +2416,8 @@ fn c15_sna128_faults_calls_5_9() {
 // @timeout 900
 // @fn sna::load; LoadableAsset::read_exact; Z80::set_im; ZXColor::from_bits; ZXController::write_7ffd; ZXMemory::ram_page_data_mut; Z80::pop_pc_from_stack
 // @sym all 27 header bytes and the 4 bytes at 49179 raw (no encoder), fresh per load; fault position and kind enumerated concretely (a symbolic fault makes the file position symbolic and CBMC runs out of memory)
-// @assert no panic / overflow / failed unwrap (Kani checks), every loop terminates within the unwinding bound, asset calls <= 24, largest read request <= 16384 bytes (sna::load allocates nothing), an asset Err/EOF surfaces as Err, memory map afterwards names existing pages
+// @assert no panic / overflow / failed unwrap (Kani checks), every loop terminates within the unwinding bound, asset calls <= 24, largest read request <= 16384 bytes (sna::load allocates nothing), an asset Err/EOF surfaces as Err, interrupt-mode byte with both low bits set gives Err, memory map afterwards names existing pages
 // @bound 128K machine, 131103-byte file, port byte 0x06; Err at calls 10..14
-// @assume header byte 25 & 3 != 3 (complement panics: KF-C15-1)
 // @outside RAM page contents (whole-slice copies, sparse asset leaves them untouched); 128K port byte values other than the enumerated ones; emulating whole further frames (C01/C04 show a step cannot panic from any state under the map invariant asserted here)
 // @stub ZXController::refresh_memory_dependent_devices -> no-op; ZXScreen::process_clocks -> no-op
 // @replay solver-only
@@ -2378,9 +2436,8 @@ fn c15_sna128_faults_calls_10_14() {
 // @timeout 900
 // @fn sna::load; LoadableAsset::read_exact; Z80::set_im; ZXColor::from_bits; ZXController::write_7ffd; ZXMemory::ram_page_data_mut; Z80::pop_pc_from_stack
 // @sym all 27 header bytes and the 4 bytes at 49179 raw (no encoder), fresh per load; fault position and kind enumerated concretely (a symbolic fault makes the file position symbolic and CBMC runs out of memory)
-// @assert no panic / overflow / failed unwrap (Kani checks), every loop terminates within the unwinding bound, asset calls <= 24, largest read request <= 16384 bytes (sna::load allocates nothing), an asset Err/EOF surfaces as Err, memory map afterwards names existing pages
+// @assert no panic / overflow / failed unwrap (Kani checks), every loop terminates within the unwinding bound, asset calls <= 24, largest read request <= 16384 bytes (sna::load allocates nothing), an asset Err/EOF surfaces as Err, interrupt-mode byte with both low bits set gives Err, memory map afterwards names existing pages
 // @bound 128K machine, 131103-byte file, port byte 0x31; short reads at the header (1 byte), secondary header (1 byte), a head bank and a tail bank
-// @assume header byte 25 & 3 != 3 (complement panics: KF-C15-1)
 // @outside RAM page contents (whole-slice copies, sparse asset leaves them untouched); 128K port byte values other than the enumerated ones; emulating whole further frames (C01/C04 show a step cannot panic from any state under the map invariant asserted here)
 // @stub ZXController::refresh_memory_dependent_devices -> no-op; ZXScreen::process_clocks -> no-op
 // @replay solver-only
@@ -2390,7 +2447,7 @@ fn c15_sna128_faults_calls_10_14() {
 #[kani::stub(ZXScreen::process_clocks, noop_screen_clocks)]
 fn c15_sna128_short_reads() {
     let t = c15_sna_list(ZXMachine::Sinclair128K, 131103, Some(0x31), &[(2, 1), (4, 1), (7, 1), (11, 1)], 1, false);
-    kani::assert(t.ok == 4, "c15.sna.short_reads_do_not_fail_the_load");
+    kani::assert(t.ok + t.im3 == 4, "c15.sna.short_reads_do_not_fail_the_load");
     kani::cover!(t.ok == 4, "short reads are retried");
 }
 
@@ -2400,9 +2457,8 @@ fn c15_sna128_short_reads() {
 // @timeout 900
 // @fn sna::load; LoadableAsset::read_exact; Z80::set_im; ZXColor::from_bits; ZXController::write_7ffd; ZXMemory::ram_page_data_mut; Z80::pop_pc_from_stack
 // @sym all 27 header bytes and the 4 bytes at 49179 raw (no encoder), fresh per load; fault position and kind enumerated concretely (a symbolic fault makes the file position symbolic and CBMC runs out of memory)
-// @assert no panic / overflow / failed unwrap (Kani checks), every loop terminates within the unwinding bound, asset calls <= 24, largest read request <= 16384 bytes (sna::load allocates nothing), an asset Err/EOF surfaces as Err, memory map afterwards names existing pages
+// @assert no panic / overflow / failed unwrap (Kani checks), every loop terminates within the unwinding bound, asset calls <= 24, largest read request <= 16384 bytes (sna::load allocates nothing), an asset Err/EOF surfaces as Err, interrupt-mode byte with both low bits set gives Err, memory map afterwards names existing pages
 // @bound 128K machine; sizes 49180 (secondary header cut), 131102 (last bank one byte short), 131103 with bank 2 paged (file one bank short), 147488 (one byte too many, bank 5 paged); no injected fault
-// @assume header byte 25 & 3 != 3 (complement panics: KF-C15-1)
 // @outside RAM page contents (whole-slice copies, sparse asset leaves them untouched); 128K port byte values other than the enumerated ones; emulating whole further frames (C01/C04 show a step cannot panic from any state under the map invariant asserted here)
 // @stub ZXController::refresh_memory_dependent_devices -> no-op; ZXScreen::process_clocks -> no-op
 // @replay solver-only
@@ -2411,7 +2467,7 @@ fn c15_sna128_short_reads() {
 #[kani::stub(ZXController::refresh_memory_dependent_devices, noop_refresh)]
 #[kani::stub(ZXScreen::process_clocks, noop_screen_clocks)]
 fn c15_sna128_truncated_and_oversized() {
-    let mut t = Tally { ok: 0, err: 0, fault_err: 0 };
+    let mut t = Tally { ok: 0, err: 0, fault_err: 0, im3: 0 };
     c15_sna_once(ZXMachine::Sinclair128K, 49180, Some(0x00), FAULT_NONE, &mut t);
     c15_sna_once(ZXMachine::Sinclair128K, 131102, Some(0x07), FAULT_NONE, &mut t);
     c15_sna_once(ZXMachine::Sinclair128K, 131103, Some(0x02), FAULT_NONE, &mut t);
@@ -2426,9 +2482,8 @@ fn c15_sna128_truncated_and_oversized() {
 // @timeout 3600
 // @fn sna::load; LoadableAsset::read_exact; Z80::set_im; ZXColor::from_bits; ZXController::write_7ffd; ZXMemory::ram_page_data_mut; Z80::pop_pc_from_stack
 // @sym all 27 header bytes and the 4 bytes at 49179 raw (no encoder), fresh per load; fault position and kind enumerated concretely (a symbolic fault makes the file position symbolic and CBMC runs out of memory)
-// @assert no panic / overflow / failed unwrap (Kani checks), every loop terminates within the unwinding bound, asset calls <= 24, largest read request <= 16384 bytes (sna::load allocates nothing), an asset Err/EOF surfaces as Err, memory map afterwards names existing pages
+// @assert no panic / overflow / failed unwrap (Kani checks), every loop terminates within the unwinding bound, asset calls <= 24, largest read request <= 16384 bytes (sna::load allocates nothing), an asset Err/EOF surfaces as Err, interrupt-mode byte with both low bits set gives Err, memory map afterwards names existing pages
 // @bound 48K machine, 49179-byte file; premature Ok(0) at calls 2..5, 26-byte short read at calls 2..5
-// @assume header byte 25 & 3 != 3 (complement panics: KF-C15-1)
 // @outside RAM page contents (whole-slice copies, sparse asset leaves them untouched); 128K port byte values other than the enumerated ones; emulating whole further frames (C01/C04 show a step cannot panic from any state under the map invariant asserted here)
 // @stub ZXController::refresh_memory_dependent_devices -> no-op; ZXScreen::process_clocks -> no-op
 // @replay solver-only
@@ -2447,9 +2502,8 @@ fn c15_sna48_eof_and_short26() {
 // @timeout 7200
 // @fn sna::load; LoadableAsset::read_exact; Z80::set_im; ZXColor::from_bits; ZXController::write_7ffd; ZXMemory::ram_page_data_mut; Z80::pop_pc_from_stack
 // @sym all 27 header bytes and the 4 bytes at 49179 raw (no encoder), fresh per load; fault position and kind enumerated concretely (a symbolic fault makes the file position symbolic and CBMC runs out of memory)
-// @assert no panic / overflow / failed unwrap (Kani checks), every loop terminates within the unwinding bound, asset calls <= 24, largest read request <= 16384 bytes (sna::load allocates nothing), an asset Err/EOF surfaces as Err, memory map afterwards names existing pages
+// @assert no panic / overflow / failed unwrap (Kani checks), every loop terminates within the unwinding bound, asset calls <= 24, largest read request <= 16384 bytes (sna::load allocates nothing), an asset Err/EOF surfaces as Err, interrupt-mode byte with both low bits set gives Err, memory map afterwards names existing pages
 // @bound 128K machine, 147487-byte file, port byte 0x05 / 0x3A; Err at calls 0..15; premature Ok(0) and 16383-byte short reads at every read call
-// @assume header byte 25 & 3 != 3 (complement panics: KF-C15-1)
 // @outside RAM page contents (whole-slice copies, sparse asset leaves them untouched); 128K port byte values other than the enumerated ones; emulating whole further frames (C01/C04 show a step cannot panic from any state under the map invariant asserted here)
 // @stub ZXController::refresh_memory_dependent_devices -> no-op; ZXScreen::process_clocks -> no-op
 // @replay solver-only
@@ -2467,25 +2521,34 @@ fn c15_sna128_dup_bank_faults() {
 // @prop C15
 // @tier quick
 // @timeout 600
-// @expect known:KF-C15-1
-// @fn sna::load; LoadableAsset::read_exact; Z80::set_im; ZXColor::from_bits; ZXController::write_7ffd; ZXMemory::ram_page_data_mut; Z80::pop_pc_from_stack
-// @sym all 27 header bytes and the 4 bytes at 49179 raw (no encoder), fresh per load; fault position and kind enumerated concretely (a symbolic fault makes the file position symbolic and CBMC runs out of memory)
-// @assert sna::load returns (Ok or Err) for a header whose interrupt-mode byte has both low bits set
-// @bound 48K machine, 49179-byte file, no fault
-// @assume header byte 25 & 3 == 3 (the region excluded from the c15_sna* harnesses)
-// @outside RAM page contents (whole-slice copies, sparse asset leaves them untouched); 128K port byte values other than the enumerated ones; emulating whole further frames (C01/C04 show a step cannot panic from any state under the map invariant asserted here)
+// @fn sna::load; Z80::set_im
+// @sym all header bytes with byte 25 & 3 == 3, receiver registers; both machines with their matching file size
+// @assert a header whose interrupt-mode byte has both low bits set is refused with Err(InvalidSNAFile) (was a panic, KF-C15-1) and leaves registers, PC and control flags untouched
+// @bound 2 loads, no fault
+// @assume header byte 25 & 3 == 3
 // @stub ZXController::refresh_memory_dependent_devices -> no-op; ZXScreen::process_clocks -> no-op
 // @replay solver-only
 #[kani::proof]
 #[kani::unwind(29)]
 #[kani::stub(ZXController::refresh_memory_dependent_devices, noop_refresh)]
 #[kani::stub(ZXScreen::process_clocks, noop_screen_clocks)]
-fn c15_known_sna_im3_panics() {
-    let mut head: [u8; 27] = kani::any();
-    head[25] |= 3;
-    let asset = SparseAsset::new(49179, head, [0; 4], NO_WITNESS, 0);
-    let mut e = mk_emulator(ZXMachine::Sinclair48K, CTX);
-    let _ = load(&mut e, asset);
+fn c15_sna_interrupt_mode_3_rejected() {
+    let mut m = 0;
+    while m < 2 {
+        let (machine, size) = if m == 0 { (ZXMachine::Sinclair48K, 49179) } else { (ZXMachine::Sinclair128K, 131103) };
+        let mut head: [u8; 27] = kani::any();
+        head[25] |= 3;
+        let asset = SparseAsset::new(size, head, [0; 4], NO_WITNESS, 0);
+        let mut e = receiver(machine, true, 0x05);
+        let before = read_abs(&mut e);
+        let (pc, halted) = (cpu(&mut e).regs.get_pc(), cpu(&mut e).halted);
+        let r = load(&mut e, asset);
+        kani::assert(matches!(r, Err(Error::SnapshotLoad(SnapshotLoadError::InvalidSNAFile))), "c15.sna.interrupt_mode_3_is_err");
+        let after = read_abs(&mut e);
+        assert_abs_eq!(after, before, "c15.sna.interrupt_mode_3_state_untouched");
+        kani::assert(cpu(&mut e).regs.get_pc() == pc && cpu(&mut e).halted == halted, "c15.sna.interrupt_mode_3_state_untouched.cpu");
+        m += 1;
+    }
     kani::cover!(true, "reached");
 }
 
